@@ -12,1426 +12,1432 @@ Definition show_fres (r : fres) : string :=
   end.
 Definition check (rs : list rune) : string := digest (show_fres (format_res rs)).
 Definition full (rs : list rune) : string := show_fres (format_res rs).
-Eval vm_compute in ("<<<M3517>>>" ++ check (runes_of_ascii "options { // c1
-LittleEndian // c2a
-  // c2b
-= // c3
-true ; // c5a
-  // c5b
-StringPrefixLenType
-    // c6
-=
-    // c7
-u64 // c8
-; // c9a
-  // c9b
-ArrayPrefixLenType
-    // c10
-= u8 // c12
-; // c13
-FixedStringPadChar
-    // c14
-= // c15a
-  // c15b
-'0' // c16
-;
-    // c17
-} // c18a
-  // c18b
-packet // c19
-Reject // c20a
-  // c20b
-{ i32 // c22
-Ref
-    // c23
-,
-    // c24
-repeat f64 OrderId ,
-    // c28
-repeat // c29
-InNote12 // c30a
-  // c30b
-{ // c31a
-  // c31b
-u8 // c32a
-  // c32b
-pad0 // c33a
-  // c33b
-,
-    // c34
-}
-    // c35
-, @leftPad ( // c38
-' ' )
-    // c40
-char[ // c41a
-  // c41b
-6 // c42a
-  // c42b
-] count
-    // c44
-, }
-    // c46
-packet // c47
-Logout // c48
-{ zchar[ 6 ] Tail
-    // c53
-, repeat
-    // c55
-string // c56a
-  // c56b
-venue ,
-    // c58
-} // c59a
-  // c59b
-packet // c60
-Cancel // c61
-{ // c62
-u64 // c63
-count , // c65
-repeat // c66a
-  // c66b
-char[ // c67
-5
-    // c68
-] lastPx
-    // c70
-, // c71a
-  // c71b
-i64 // c72
-Tail ,
-    // c74
-repeat // c75
-InF140 // c76a
-  // c76b
-{
-    // c77
-repeat Logout
-    // c79
-, // c80
-repeat
-    // c81
-Reject // c82
-, // c83
-} , } // c86
-root packet
-    // c88
-Trade
-    // c89
-{
-    // c90
-repeat // c91
-InMsgkind39
-    // c92
-{ repeat Reject , // c96a
-  // c96b
-char[ // c97
-4 // c98a
-  // c98b
-]
-    // c99
-Px , // c101a
-  // c101b
-} // c102a
-  // c102b
-, string // c104a
-  // c104b
-Acct , // c106
-uint16 // c107
-price , f32 // c110a
-  // c110b
-OrderId // c111a
-  // c111b
-,
-    // c112
-u16 // c113a
-  // c113b
-x // c114a
-  // c114b
-, u16 // c116a
-  // c116b
-clOrdID @lengthOf( // c118a
-  // c118b
-Body ) // c120
-,
-    // c121
-match // c122a
-  // c122b
-x // c123a
-  // c123b
-as
-    // c124
-Body // c125a
-  // c125b
-{ // c126a
-  // c126b
-178 : // c128
-Logout // c129a
-  // c129b
-, // c130a
-  // c130b
-13 // c131
-: // c132a
-  // c132b
-Cancel // c133
-,
-    // c134
-174
-    // c135
-: Reject
-    // c137
-,
-    // c138
-} , u16
-    // c141
-Flags // c142a
-  // c142b
-@calculatedFrom( // c143
-""CRC32"" // c144a
-  // c144b
-) // c145
-, }
-    // c147
-")).
-Eval vm_compute in ("<<<M4182>>>" ++ check (runes_of_ascii "packet T {
-    repeat zchar[007] x_y_z,
-    repeat Logon {
-        repeat f32a `// not a comment`,
-        string uint8x `crlf
-        line`,
-    },
-    int64 len `// not a comment`,
-    match repeatCount as x_y_z {
-        00 : packetx,
-        [""CRC32"", """ ++ [128512]%N ++ runes_of_ascii """] : metadata,
-        00 : metadata,
-    },
-    repeat msg_type {
-        falsey {
-            repeat len {
-                match float as stringy {
-                    // c
-                    [
-                        007, 007, 1, 4294967296, ""packet"",
-                        ""\n"", ""abc""
-                    ] : matchKey,
-                    42 : f32a,
-                    [10, ""a\\""] : a1,
-                    65535 : tag,
-                    // `tick` ""quote"" 'q'
-                },
-            },
-        },
-        u64 _x `two words`,
-        pack,
-    },
-    repeat As {
-        repeat string pack,
-        uint8 leftPad @lengthOf(As),
-        string options1 @calculatedFrom(""// no comment"") `" ++ [28040; 24687; 31867; 22411]%N ++ runes_of_ascii "`,
-        u8 leftPad @lengthOf(options1),
-    },
-}//
-
-packet float {
-    @tag(42)
-    //
-    repeat int64 float `a\`,
-    @calculatedFrom(""// no comment"")
-    repeat i64_ packetx,
-    match lengthOf as falsey {
-        [
-            42, 10, 10, 007, 1,
-            7, ""\" ++ [233]%N ++ runes_of_ascii """, ""abc""
-        ] : metadata,
-    },
-    repeat int,
-    repeatCount,
-    zchar[255] x @lengthOf(A),
-    @leftPad(' ')
-    @lengthOf(o)
-    @rightPad('\x00')
-    // a // b
-    // @lengthOf(
-    repeat float64 leftPad,
-    @leftPad('0')
-    match i8i8 as charz {
-        """ ++ [28040; 24687]%N ++ runes_of_ascii """ : roots,
-    },
-    @calculatedFrom(""abc"")
-    repeat zchar[00] matchKey,// packet A { u8 x, }
-    uint16 string_ `doc`,
-}")).
-Eval vm_compute in ("<<<M279>>>" ++ check (runes_of_ascii "//x
-root packet
-// `tick` ""quote"" 'q'
-// `tick` ""quote"" 'q'
-i8i8 { u128{ repeat lengthOf Foo //
-`u8 x,`
-,MetaDataX	falsey
-`two words` ,Pad{	u8 a1 @lengthOf( leftPad )
-, }
-    , int @calculatedFrom( // " ++ [128512]%N ++ runes_of_ascii " emoji
-""a\\""
-    ) `
-`
-    ,	}
-    , Header
-Logon , match rootA// c
-as
-    BodyLength
-    // " ++ [27880; 37322]%N ++ runes_of_ascii "
-    { """ ++ [28040; 24687]%N ++ runes_of_ascii """ :	Pad [ """ ++ [233]%N ++ runes_of_ascii "t" ++ [233]%N ++ runes_of_ascii """
-    ,
-1
-] : _x , }, options1 `crlf
-line` , repeat u	{ match	i8i8 as falsey
-{// `tick` ""quote"" 'q'
-[ 42 , 4294967296 ]: x_y_z ,42
+Eval vm_compute in ("<<<M968>>>" ++ check (runes_of_ascii "packet float  { repeat matchKey , char[] // " ++ [128512]%N ++ runes_of_ascii " emoji
+repeatCount
+`{ , }`
+, char[	00] a1 , char[] roots`" ++ [28040; 24687; 31867; 22411]%N ++ runes_of_ascii "` ,@rightPad
+    ( '0') repeatCount ,match
+MetaDataX as tag { ""`tick`"":
+tag , [	""it's"" ,42
+] :asx
+    // packet A { u8 x, }
+    , ""a	b"" :As 65535 : calculatedFrom 007:
+stringy , 007: Packet // " ++ [128512]%N ++ runes_of_ascii " emoji
+,} ,char[// " ++ [27880; 37322]%N ++ runes_of_ascii "
+0]//	t
+i8i8
+`a\`,
+} root packet chars { @calculatedFrom( ""packet""
+) // " ++ [27880; 37322]%N ++ runes_of_ascii "
+i64_ string_ , match Pad // " ++ [128512]%N ++ runes_of_ascii " emoji
+as MetaDataX {
+    0123456789  :repeatCount ,	[
+""" ++ [128512]%N ++ runes_of_ascii """] :a1  ,[ """ ++ [233]%N ++ runes_of_ascii "t" ++ [233]%N ++ runes_of_ascii """ ,
+7
+, //	t
+""x y""	, 00	]
 :
-    float ,
-// `tick` ""quote"" 'q'
-// c
-3
-    : packetx
-, } , }
-, charz ,
-    }
-    // a // b
-    root packet float
-// @lengthOf(
-// c
-{ repeat _x body `say ""hi""` , charz`// not a comment`,repeat lengthOf{
-repeatCount { repeat
-tag { zchar[ 42  ]
-// a // b
-// " ++ [27880; 37322]%N ++ runes_of_ascii "
-leftPad
-,repeat
-    zchar[0123456789  ]T `crlf
-line`,  char[]
-trueish , zchar[ 007 // " ++ [128512]%N ++ runes_of_ascii " emoji
-]	lengthOf @lengthOf(string_
-)`" ++ [233]%N ++ runes_of_ascii "` ,
-} ,repeat int32 As
-,int8 chars	, i32 calculatedFrom`it's`, } /// triple
-, zchar[ 00 ] chars ``
-, }	,char[255
-] charz @calculatedFrom(""1"" ) `doc` , // packet A { u8 x, }
-match body
-as rootA { ""CRC32"" :	A , [ 007
-    , ""{,}""
-    ,
-    0 // `tick` ""quote"" 'q'
-,""1""
-    ,0123456789 ,""// no comment""// " ++ [27880; 37322]%N ++ runes_of_ascii "
-, ""it's"", 1] :
-    BodyLength 65535 : x_y_z [""`tick`""]  : a1 }, repeat	asx{ char[ 0123456789 ]
-    i64_ `" ++ [28040; 24687; 31867; 22411]%N ++ runes_of_ascii "` ,
-    } , @lengthOf(  x_y_z )
-pack
-@calculatedFrom(""" ++ [233]%N ++ runes_of_ascii "t" ++ [233]%N ++ runes_of_ascii """) ,@tag( 3
-// trailing space 
 //
-) repeat uint64 o
-    ,// @lengthOf(
-}")).
-Eval vm_compute in ("<<<M829>>>" ++ check (runes_of_ascii "packet
-    repeatCount
-{match falsey as  string_{65535 : crc ,[ 007 ,
-    // " ++ [27880; 37322]%N ++ runes_of_ascii "
-    65535 , 65535 ] : i8i8 ,
-} ,
-    @lengthOf( // " ++ [128512]%N ++ runes_of_ascii " emoji
-float)
-T {// " ++ [128512]%N ++ runes_of_ascii " emoji
-char[]Packet @lengthOf( // " ++ [27880; 37322]%N ++ runes_of_ascii "
-trueish )
-,}
-    , uint64 Logon `doc` ,
-zchar[ 0
-]
-trueish @calculatedFrom(
-// trailing space 
-// @lengthOf(
-""// no comment""  ) , @lengthOf(a1)repeat rootA i64_ `// not a comment` , u64
-    /// triple
-    u ,} packet	i64_
-// `tick` ""quote"" 'q'
-// `tick` ""quote"" 'q'
-{//
-@rightPad (
-' '
-) f64 float, // `tick` ""quote"" 'q'
-match	rootA as i8i8
-    // c
-    { [ ""\n"" ,
-007 ,
-    """ ++ [128512]%N ++ runes_of_ascii """
-,
-""" ++ [128512]%N ++ runes_of_ascii """ ] :lengthOf }
-, i16
-Packet , int16
-    // `tick` ""quote"" 'q'
-    lengthOf
-    @calculatedFrom(""" ++ [28040; 24687]%N ++ runes_of_ascii """ ) `line1
-line2` ,
-@calculatedFrom( """" )@calculatedFrom( ""it's""	)
-    zchar[
-    // " ++ [128512]%N ++ runes_of_ascii " emoji
-    007 ] As  , char[] i8i8@lengthOf(
-zchar
-//x
-// trailing space 
-),
-u16 packetx @lengthOf(falsey  )
-    , repeat	len
-{// c
-u32 lengthOf ,
-},match MetaDataX as u128
-    { 1
-    : u ,""x y""
-    : u	, 255 :
-    i64_""x y"" :falsey
-, [""1"" , 1 ] :repeatCount
 // a // b
-//	t
-,// packet A { u8 x, }
-} ,
-}
-options {  asx =  uint8 ; matchKey =  true
-i64_ =	false Logon
-= char[]
-/// triple
-// " ++ [27880; 37322]%N ++ runes_of_ascii "
-;
-    A =
-00
-} packet
-Packet
-{ // packet A { u8 x, }
-uint32
-float
-    `it's` ,}
-")).
-Eval vm_compute in ("<<<M4418>>>" ++ check (runes_of_ascii "options {
-    asx = true;
-    matchKey = ' ';
-    Z9_ = int8
-    BodyLength = char[]
-}
-
-MetaData calculatedFrom {
-    float32 tag,
-    char[] Header,
-    float64 charz,
-    falsey Z9_,
-    string A,
-    char[65535] leftPad,
-}
-
-packet BodyLength {
-    i16 Foo,
-    @tag(65535)
-    @lengthOf(lengthOf)
-    @tag(007)
-    x @calculatedFrom(""packet"") `u8 x,`,
-    Logon @calculatedFrom(""1"") `two words`,
-}
-
-MetaData options1 {
-}
-
-packet Packet {
-    pack,
-    repeat char[] o,
-    @lengthOf(uint8x)
-    string_ @calculatedFrom(""a\""b""),
-    @tag(0)
-    u16 repeatCount `
-    `,
-    string Packet,
-    @tag(0123456789)
-    match x as zchar {
-        42 : msg_type,
-        [3, ""{,}""] : u,
-        //
-        4294967296 : repeatCount,
-        [
-            3, ""a\\"", ""`tick`"", ""// no comment"", """",
-            ""a\\""
-        ] : i64_,
-        ""`tick`"" : zchar,
-        [""// no comment""] : MetaDataX,
-    },
-    Foo @lengthOf(A),
-    char[65535] Pad `it's`,
-    match matchKey as x {
-        [
-            0123456789, """ ++ [128512]%N ++ runes_of_ascii """, ""\" ++ [233]%N ++ runes_of_ascii """, ""CRC32"", ""`tick`"",
-            ""a\""b"", ""a	b""
-        ] : stringy,
-    },
+int, } ,repeat
+Foo`say ""hi""`,@lengthOf(	As
+) u32 leftPad
+    @lengthOf( zchar	)// a // b
+,
     // " ++ [128512]%N ++ runes_of_ascii " emoji
-    //	t
-    repeat uint16 Logon,
-}")).
-Eval vm_compute in ("<<<M3842>>>" ++ check (runes_of_ascii "packet i64_ {
-    @leftPad()
+    }// c
+packet u128	{@calculatedFrom(
+""`tick`""
+    // packet A { u8 x, }
+    ) float Z9_ ``
+,string packetx ,
+// @lengthOf(
+// packet A { u8 x, }
+@leftPad ( '\x00'
+)
+uint8
+metadata , @leftPad
+()
+    uint32 a1 `two words` ,
+@tag(
+    0123456789
+// packet A { u8 x, }
+// packet A { u8 x, }
+)  repeat zchar[ 42	] pack`two words` , repeat stringy
+    `line1
+line2`
+    , uint8x `" ++ [233]%N ++ runes_of_ascii "`, falsey `say ""hi""` ,
+} packet a1{ uint16
+float , @lengthOf( string_)	char[ 0123456789 ] BodyLength @lengthOf( charz /// triple
+)
+    // `tick` ""quote"" 'q'
+    `say ""hi""`, @rightPad	( '\x00'
+)	Z9_ @lengthOf(zchar
+)  , calculatedFrom @lengthOf(pack
+)
+`tab	here`
+    ,
+    @lengthOf( MetaDataX)@calculatedFrom( ""abc"" )
+@calculatedFrom( ""a\\"" ) match
+falsey //
+as
+body  {// " ++ [27880; 37322]%N ++ runes_of_ascii "
+""a\""b"" : o //x
+,255:uint8x , [ // `tick` ""quote"" 'q'
+65535 ]: BodyLength } , /// triple
+char[]
+x_y_z
+,// trailing space 
+@tag(
+// trailing space 
+/// triple
+0
+)
+int16	x `crlf
+line`
+,match Foo as zchar {""" ++ [233]%N ++ runes_of_ascii "t" ++ [233]%N ++ runes_of_ascii """	:
+u128 , }, @lengthOf(	x_y_z) As @calculatedFrom(""packet""),repeat
+Header{string_ `{ , }` , match	chars as
+    uint8x {
+""it's"" : lengthOf ,[ ""\n""  ,	3 , ""CRC32""
+,// a // b
+10
+    // " ++ [27880; 37322]%N ++ runes_of_ascii "
+    , """ ++ [28040; 24687]%N ++ runes_of_ascii """ ]
+: falsey } ,
+repeat char[] o
+`
+`
+    ,
+i32 len@calculatedFrom(""" ++ [233]%N ++ runes_of_ascii "t" ++ [233]%N ++ runes_of_ascii """ ) `" ++ [28040; 24687; 31867; 22411]%N ++ runes_of_ascii "` ,
+    } // trailing space 
+, // " ++ [27880; 37322]%N ++ runes_of_ascii "
+}
+")).
+Eval vm_compute in ("<<<M4020>>>" ++ check (runes_of_ascii "
+packet// " ++ [27880; 37322]%N ++ runes_of_ascii "
+	o	//x
+    {@tag(
+	0
+
+)match
+    leftPad
+	as  // @lengthOf(
+    	metadata
+	{
+	1
+:calculatedFrom
+
+,
+	7
+:i64_  , ""it's""
+: i64_ 0123456789
+: repeatCount ,
+    0 
+	    // packet A { u8 x, }
+	  :
+	Foo }
+,  lengthOf
+{ A	`doc` 
+, }
+, char[
+    3 ]
+
+matchKey
+`{ , }` ,
+leftPad	// `tick` ""quote"" 'q'
+{
+
+    repeat 
+	    // a // b
+u8 
+options1 
+,
+body@calculatedFrom( """ ++ [128512]%N ++ runes_of_ascii """
+)	, 
+zchar
+	{  // `tick` ""quote"" 'q'
+	u64 Logon @lengthOf(u8x
+
+    ) ,  char[
+    007 ]packetx	@lengthOf(
+
+zchar
+
+    )`
+`
+
+    ,
+}
+	,repeat 
+metadata 
+x  ,
+
+    } , u32  repeatCount	,
+@tag( 
+    // c
+10 ) 
+@lengthOf(T
+	)u16
+
+repeatCount
+`say ""hi""`, 	 /// triple
+    repeat
+
+u128 {
+//
+// packet A { u8 x, }
+	zchar[
+	4294967296
+	]BodyLength
+,	}
+	, 
+i32 
+x
+`doc`  , 
+}
+packet MetaDataX
+
+    {// a // b
+      @tag( 	 // c
+  7)
+
+repeat lengthOf
+        // a // b
+	//
+
+,
+}
+    root packet
+As 
+{
+
+    @lengthOf( 
+lengthOf)  match 
+_x	as
+
+    T {
+
+""packet"" :
+
+string_ , 3
+	: 	 // @lengthOf(
+	BodyLength
+, 
+""" ++ [128512]%N ++ runes_of_ascii """// trailing space 
+    :
+    i64_ ,
+
+    0
+:lengthOf  // trailing space 
+
+, 	 /// triple
+
+7 :
+
+Logon 
+} ,Z9_	@calculatedFrom(
+    ""\" ++ [233]%N ++ runes_of_ascii """ //	t
+    ) ,float32 int
+@lengthOf(msg_type)
+`// not a comment`
+    // packet A { u8 x, }
+    	// `tick` ""quote"" 'q'
+,
+
+char[]
+
+    A
+@calculatedFrom(""\n""
+)	,
+
+@tag(
+4294967296
+
+) i8i8
+
+{
+uint32 
+u8x , } ,zchar[
+00
+// c
+
+// c
+	]uint8x
+, 
+repeat
+msg_type string_ ,repeat
+
+zchar[ 007 	 //x
+]
+
+Pad  // " ++ [27880; 37322]%N ++ runes_of_ascii "
+	`doc`  ,
+
+    match	rootA
+
+as
+stringy  {	007 :
+    leftPad ,
+
+[
+""" ++ [233]%N ++ runes_of_ascii "t" ++ [233]%N ++ runes_of_ascii """
+    ,	7
+
+    ]
+:  x  }
+, }")).
+Eval vm_compute in ("<<<M4085>>>" ++ check (runes_of_ascii "options {
+    msg_type = ""{,}"";
+    asx = true;
+    trueish = ""// no comment""
+    Pad = ""\n"";
+    metadata = uint64;
+}
+
+root packet int {
+    @tag(0123456789)
+    @tag(00)
+    @calculatedFrom(""packet"")
+    zchar[4294967296] leftPad `line1
+        line2`,
+    @calculatedFrom(""x y"")
+    falsey @calculatedFrom(""x y""),
+    repeat uint8 Packet,
     @tag(4294967296)
-    repeat string Logon `{ , }`,
-    @lengthOf(float)
-    u16 matchKey @lengthOf(body),
-    repeat char[4294967296] tag,
-    @lengthOf(asx)
-    repeat trueish,
-    repeat lengthOf len,// packet A { u8 x, }
-    match asx as crc {
-        [""" ++ [28040; 24687]%N ++ runes_of_ascii """, ""abc""] : roots,
+    u8x,
+    repeat char[42] Logon `it's`,
+    int16 falsey @calculatedFrom(""it's""),
+    msg_type @lengthOf(leftPad) `" ++ [28040; 24687; 31867; 22411]%N ++ runes_of_ascii "`,
+    match string_ as charz {
+        //
+        ""it's"" : Foo,
+        0123456789 : calculatedFrom,
+        ""// no comment"" : T,
+        [
+            ""// no comment"", 65535, ""a\\"", ""abc"", 007,
+            ""// no comment"", 4294967296
+        ] : Z9_,
     },
-    match uint8x as repeatCount {
-        [0123456789] : Foo,
-        ""a\""b"" : Packet,
-        42 : stringy,
-        [0123456789, 007] : f32a,
-        //x
-        42 : x,
-    },
-    @lengthOf(msg_type)
-    uint8x,
-    repeat metadata,
+    float64 charz @lengthOf(Z9_) `a\`,
 }
 
-MetaData float {
-    char[42] Logon `a\`,
-    stringy packetx,
-    int32 pack,
-    rootA x,
-    Logon Foo,
-    u16 A,
+packet a1 {
 }
 
+packet T {
+}
+
+packet i64_ {
+    repeat zchar[65535] Logon,
+    @calculatedFrom(""CRC32"")
+    repeat string stringy `crlf
+        line`,
+    repeat char[007] leftPad,
+    @calculatedFrom(""abc"")
+    string calculatedFrom `two words`,
+    len {
+        // `tick` ""quote"" 'q'
+        float64 lengthOf `" ++ [28040; 24687; 31867; 22411]%N ++ runes_of_ascii "`,
+    },
+    A @calculatedFrom(""abc"") `line1
+        line2`,
+    zchar[10] charz `" ++ [28040; 24687; 31867; 22411]%N ++ runes_of_ascii "`,
+    repeat Packet,
+    // packet A { u8 x, }
+    string As @lengthOf(roots),
+    @tag(7)
+    Packet chars,
+    //x
+    // trailing space 
+}")).
+Eval vm_compute in ("<<<M531>>>" ++ check (runes_of_ascii "root packet
+    uint8x// packet A { u8 x, }
+{ match trueish
+    as body
+{
+[
+    007, ""packet"" ] : metadata
+42 : metadata , }
+    , }
+    MetaData roots{ i64 MetaDataX`a\` // a // b
+,
+    uint8	float,char[42
+]
+    u8x , i64 a1 // @lengthOf(
+,
+o Pad`line1
+line2` ,	}
+options
+{ Foo
+= true //	t
+;
+f32a
+    =""a	b"" ; falsey =
+true ; } packet //x
+float { @calculatedFrom(	""packet"" )repeat
+    len , lengthOf
+BodyLength ,@lengthOf(charz ) // @lengthOf(
+@calculatedFrom( ""{,}"") A
+,@tag( 0123456789
+//
+// @lengthOf(
+)
+crc,
+/// triple
 //x
-packet Header {
-    @calculatedFrom(""1"")
-    u,
-    @tag(65535)
-    pack {
-        string trueish `" ++ [28040; 24687; 31867; 22411]%N ++ runes_of_ascii "`,
-        match stringy as tag {
-            ""a\\"" : float,
-            ""abc"" : Z9_,
-            007 : metadata,
-            // c
-            [10] : matchKey,
-            ""a	b"" : _x,
-            7 : Pad,
-        },
-        repeat body,
-        f32 int,
+zchar[  1] leftPad`it's` , // @lengthOf(
+@lengthOf( metadata ) //x
+@lengthOf(matchKey)// trailing space 
+@lengthOf( As
+    )int16 packetx `// not a comment` //x
+, A // " ++ [128512]%N ++ runes_of_ascii " emoji
+string_ `{ , }` ,} root
+    packet
+    roots { @tag(
+4294967296)
+@lengthOf(
+chars  ) repeat tag
+//
+// packet A { u8 x, }
+`// not a comment` ,//	t
+@leftPad
+    (//	t
+' ' )uint16 falsey `say ""hi""` , @tag( 10
+    ) leftPad	{
+    int8	len `a\`, // a // b
+f32a i8i8 , // " ++ [128512]%N ++ runes_of_ascii " emoji
+u16 i8i8 ,  uint8
+options1
+, }
+    ,
+    @lengthOf( falsey )@tag(
+255
+) // @lengthOf(
+@leftPad (
+' ' // " ++ [27880; 37322]%N ++ runes_of_ascii "
+)
+    repeat float
+Foo , zchar[ 3 ]  rootA `tab	here`, @lengthOf(
+    uint8x )
+packetx Z9_,
+    @tag(7) // " ++ [27880; 37322]%N ++ runes_of_ascii "
+repeat char[// " ++ [128512]%N ++ runes_of_ascii " emoji
+10]calculatedFrom
+, }")).
+Eval vm_compute in ("<<<M3895>>>" ++ check (runes_of_ascii "packet repeatCount {
+    match falsey as string_ {
+        65535 : crc,
+        [007, 65535, 65535] : i8i8,
     },
-    MetaDataX u128 `doc`,
+    @lengthOf(float)
+    T {
+        // " ++ [128512]%N ++ runes_of_ascii " emoji
+        char[] Packet @lengthOf(trueish),
+    },
+    uint64 Logon `doc`,
+    zchar[0] trueish @calculatedFrom(""// no comment""),
+    @lengthOf(a1)
+    repeat rootA i64_ `// not a comment`,
+    u64 u,
+}
+
+packet i64_ {
+    //
+    @rightPad(' ')
+    f64 float,// `tick` ""quote"" 'q'
+    match rootA as i8i8 {
+        [""\n"", 007, """ ++ [128512]%N ++ runes_of_ascii """, """ ++ [128512]%N ++ runes_of_ascii """] : lengthOf,
+    },
+    i16 Packet,
+    int16 lengthOf @calculatedFrom(""" ++ [28040; 24687]%N ++ runes_of_ascii """) `line1
+        line2`,
+    @calculatedFrom("""")
+    @calculatedFrom(""it's"")
+    zchar[007] As,
+    char[] i8i8 @lengthOf(zchar),
+    u16 packetx @lengthOf(falsey),
+    repeat len {
+        // c
+        u32 lengthOf,
+    },
+    match MetaDataX as u128 {
+        1 : u,
+        ""x y"" : u,
+        255 : i64_,
+        ""x y"" : falsey,
+        [""1"", 1] : repeatCount,
+        // packet A { u8 x, }
+    },
 }
 
 options {
-}")).
-Eval vm_compute in ("<<<M276>>>" ++ check (runes_of_ascii "
-packet body {match u as f32a {  ""// no comment""	:
-    float ,}	,
-    // trailing space 
-    float32 int ,
-    char[]tag `u8 x,`
+    asx = uint8;
+    matchKey = true
+    i64_ = false
+    Logon = char[];
+    A = 00
+}
+
+packet Packet {
     // packet A { u8 x, }
-    , @lengthOf( body ) repeat // " ++ [27880; 37322]%N ++ runes_of_ascii "
-i64_ crc
-,@leftPad ('0' ) float64 zchar
-    , // packet A { u8 x, }
-@lengthOf( A)
-@leftPad  ( ) @lengthOf( int
+    uint32 float `it's`,
+}")).
+Eval vm_compute in ("<<<M1115>>>" ++ check (runes_of_ascii "packet tag { zchar[
+65535]
+    T
+, match
+    i64_
+    as chars { 007 :asx	,
+    [ ""a\""b""
+,  ""a\""b"" ,
+    7 // a // b
+,0,
+    ""\" ++ [233]%N ++ runes_of_ascii """ , ""abc"", ""x y"" // trailing space 
+, 0
+] : u8x 7
+    :// c
+leftPad 7
+    : body
+    , ""`tick`""
+:// `tick` ""quote"" 'q'
+lengthOf ,} ,
+@leftPad(
 )
-    //
-    crc	@calculatedFrom( ""1"") ,
-    }  root packet
-    body{
-    /// triple
-    @lengthOf( T
-    ) repeat
-u128 `line1
-line2` ,
-string // `tick` ""quote"" 'q'
-BodyLength , @calculatedFrom( ""x y"" ) char[] zchar @calculatedFrom(
-    ""a\""b"")	`" ++ [28040; 24687; 31867; 22411]%N ++ runes_of_ascii "` //x
-, falsey//	t
-trueish	, /// triple
-@rightPad // @lengthOf(
-( '\x00'  )	@lengthOf( As) @tag( 4294967296  )repeat char[] uint8x , packetx,
-    @tag(
-7 )
-    //
-    i64 roots
-// `tick` ""quote"" 'q'
-// " ++ [27880; 37322]%N ++ runes_of_ascii "
-@calculatedFrom( """ ++ [233]%N ++ runes_of_ascii "t" ++ [233]%N ++ runes_of_ascii """
-)  `// not a comment`
-    , @calculatedFrom( ""x y"" )
-    /// triple
-    f64 float@lengthOf(
-    Packet // " ++ [27880; 37322]%N ++ runes_of_ascii "
-), @tag(  4294967296 ) u32
-lengthOf@calculatedFrom(""\" ++ [233]%N ++ runes_of_ascii """)// c
-, @tag(	10 ) Foo ,
-}	packet leftPad { } options {i8i8 =zchar[ 7 ]}")).
-Eval vm_compute in ("<<<M4045>>>" ++ check (runes_of_ascii "
-options
-    {
-StringPrefixLenType
-    = u8
-;
-
-ArrayPrefixLenType  =  u32 ;
-	FixedStringPadFromLeft =  false ;
-
-FixedStringPadChar =  ' ' ; }
-packet	Party
-
-    { 
+@rightPad(
+)
 repeat
-i16 Qty  ,
-    repeat
-	string
-    Tail
-    ,i8 
-OrderId,
-i8
-    msgKind,	}
-
-    packet	Ack
-	{ Party , repeat
-
-InRef20 
-{  Party
-
-,int8 
-tag7
-
-    , 
-char[
-	5	]
-OrderId
-
-,
-zchar[
-7]
-
-    Tail 
-,
-
-    char[]
-    count , 
-InPrice45
-{ Party  ,
-char[
-
-    1  ]
-    Px	, }, },  char[
-    12
-	]
-
-price
-
-    ,
-    int8 sym , 
-}
-
-    packet
-Reject {	repeat InPrice47 {
-
-Party  ,},
-zchar[
-	4
-] x , repeat
-Ack , zchar[  2 
-]	Ref  , repeat 
-Party , }packet  Cancel
-{
-Reject,
-
-    repeat string  f1  , uint16 OrderId
-
-, 
-u8
-
-Acct,  int8	msgKind 
-,
-}root
-packet
-
-    Fill
-
-{
-u8
-	count
-, char[]	tag7 , zchar[
-	7
-
-    ]
-
-    Acct 
-,u32 OrderId,
-u32
-	Note
-    @lengthOf(  Body	)
-	,match 
-OrderId 
-as
-Body
-
-    {	106
-: Cancel
-	, 196 : Reject
-,
-74
-: Party,
-	75
-	:Ack 
-, }
-
-    ,	} ")).
-Eval vm_compute in ("<<<M301>>>" ++ check (runes_of_ascii "root  packet
-    MetaDataX { } options
-    {
-matchKey
-= ""abc""
-;i64_ =// a // b
-7 ; len  = 1 x_y_z =//x
-'0' ; } options { A
-    = 7 len
-// a // b
-//x
-=	zchar[4294967296 ]	;o
-    = string ;
-    int = false f32a = // trailing space 
-""CRC32"" ;} root
-    packet crc
-    // " ++ [27880; 37322]%N ++ runes_of_ascii "
-    { char[]
-string_
-    ,match i8i8 // c
-as tag { //x
-3 :packetx } ,  @rightPad(' '	)  repeat _x
-// packet A { u8 x, }
-//x
-{ a1
-trueish `// not a comment` , }	, int16// packet A { u8 x, }
-Z9_ ,@lengthOf( uint8x
-    // @lengthOf(
-    )
-// `tick` ""quote"" 'q'
-// `tick` ""quote"" 'q'
-zchar[
-    // " ++ [128512]%N ++ runes_of_ascii " emoji
-    4294967296  ]A
-@lengthOf( i64_  ) //	t
-`two words` ,repeat // " ++ [27880; 37322]%N ++ runes_of_ascii "
-uint64 metadata
-,
-@calculatedFrom(
-""packet"" ) string
-//x
-//	t
-x
-`it's`
-, match	T
-as asx
-// " ++ [27880; 37322]%N ++ runes_of_ascii "
-//	t
-{ ""abc"" : A , ""it's""
-:
-    Logon, }  ,// packet A { u8 x, }
-@calculatedFrom(
+    //
+    i64_ charz
+, repeat //	t
+charz u8x ,  repeat float32 uint8x , } packet falsey { } packet // trailing space 
+Z9_ { repeat u { int32 i8i8 , // " ++ [128512]%N ++ runes_of_ascii " emoji
+repeat BodyLength { match string_ as charz{""\" ++ [233]%N ++ runes_of_ascii """
 //
-// a // b
-""\n"" ) string _x , uint64 zchar @lengthOf(
-lengthOf
-) , } packet
-uint8x { } // a // b")).
-Eval vm_compute in ("<<<M1219>>>" ++ check (runes_of_ascii "packet int// " ++ [128512]%N ++ runes_of_ascii " emoji
-{@tag( 7 ) BodyLength { // @lengthOf(
-float32 f32a	, char[ 255 ] u8x @lengthOf( Z9_)`line1
-line2` ,
-repeat char[
-65535
-    ]
-// `tick` ""quote"" 'q'
-// a // b
-tag `" ++ [233]%N ++ runes_of_ascii "` ,
-match Header//x
-as  int {""" ++ [128512]%N ++ runes_of_ascii """
-// trailing space 
-//	t
-://	t
-body, [
-""" ++ [233]%N ++ runes_of_ascii "t" ++ [233]%N ++ runes_of_ascii """  ,
-    """ ++ [128512]%N ++ runes_of_ascii """ , ""packet"", 00 ,4294967296, 255
-    ]: int	[ 0 ,""a	b"" ]
-: Z9_ , [
-65535// " ++ [128512]%N ++ runes_of_ascii " emoji
-] : tag
-,/// triple
-""" ++ [233]%N ++ runes_of_ascii "t" ++ [233]%N ++ runes_of_ascii """:
-    // `tick` ""quote"" 'q'
-    options1
-//
-//x
-}
-,} ,
-zchar[
-255 ] MetaDataX@lengthOf(Z9_  ) `crlf
-line`
-, stringy
 /// triple
-// @lengthOf(
-{ repeat	string A	, // packet A { u8 x, }
-crc{ zchar[ 1 ]
-    // c
-    uint8x,
-}
-, uint16 Packet @calculatedFrom(
-""a	b"" )
-    ,	len @calculatedFrom(
-    ""a	b""
-    )
-`two words` , } ,
-zchar[ 255] As ``
-,i16// `tick` ""quote"" 'q'
-calculatedFrom ,
-@tag( 42 // `tick` ""quote"" 'q'
-)
-repeat x_y_z `two words`
-    // " ++ [128512]%N ++ runes_of_ascii " emoji
-    , uint8 lengthOf , @tag(
-0 )
-u128, }
-")).
-Eval vm_compute in ("<<<M4311>>>" ++ check (runes_of_ascii "packet i8i8 {
-    @leftPad('0')
-    i16 int,
-    @calculatedFrom(""\n"")
-    crc @calculatedFrom(""abc""),
-    // packet A { u8 x, }
-    int16 trueish `it's`,// trailing space 
-    @rightPad(' ')
-    @tag(3)
-    @calculatedFrom("""")
-    pack {
-        i64_ falsey,
-        i8i8 repeatCount,
-        repeat u16 pack,
-        u128 @calculatedFrom(""it's"") `" ++ [233]%N ++ runes_of_ascii "`,
-    },
-    @calculatedFrom(""1"")
-    match i64_ as a1 {
-        42 : MetaDataX,
-        [10, ""{,}"", ""abc"", ""`tick`""] : asx,
-        //
-        65535 : string_,
-    },
-    @calculatedFrom(""" ++ [128512]%N ++ runes_of_ascii """)
-    @lengthOf(_x)
-    @rightPad(' ')
-    x {
-        // packet A { u8 x, }
-        f32 tag @lengthOf(calculatedFrom),
-        u32 Logon `" ++ [28040; 24687; 31867; 22411]%N ++ runes_of_ascii "`,
-    },
-    @lengthOf(zchar)
-    Packet matchKey,
-    @leftPad('0')
-    f32 charz `
-        `,
-    @rightPad('0')
-    char[3] stringy `tab	here`,
-}")).
-Eval vm_compute in ("<<<M4083>>>" ++ check (runes_of_ascii "
-packet  Z9_ {
-repeat  options1
-    {repeat  i16 o
-	// a // b
-
-  /// triple
-    `two words`	, match 
-charz as
-    o{
-[ 4294967296
-    , ""// no comment""  ]
-: 
-    // `tick` ""quote"" 'q'
-	  // packet A { u8 x, }
-  u
-,
-    }
-,  match float as  tag { [00 ]:leftPad,	[	""" ++ [233]%N ++ runes_of_ascii "t" ++ [233]%N ++ runes_of_ascii """,""\n""
-,
-
-    0  //
-	,  ""CRC32""	,
-    1
-
-    ,
-    """ ++ [28040; 24687]%N ++ runes_of_ascii """ 
-,
-    255
-
-    ,
-
-    1 ]	: 
-options1
-
-,
-
-255
-:x
-
-    ,	00	:
-
-x  ,
-
-} ,
-    repeat	string 
-asx
-
-`u8 x,` ,
-	} , 
-    // " ++ [27880; 37322]%N ++ runes_of_ascii "
-      // a // b
-	  zchar[  3
-
-    ]
-falsey ,
-
-}	packet	u 
-{ 
-  //x
-// trailing space 
-  zchar[	0
-]
-asx 
-, @tag(
-
-10
-
-) @rightPad
-
-    (' '
-)
-
-    @rightPad
+:  As}, //x
+i64_
+    @calculatedFrom( ""packet"" ) ,} ,
     //x
-( '\x00'
-    )
-	Logon
-@calculatedFrom(
-	""" ++ [128512]%N ++ runes_of_ascii """
+    } ,asx {//x
+char[4294967296]
+    pack , // @lengthOf(
+}, @rightPad ( '0'
 )
-	,
-    repeat char[
-255
-]calculatedFrom 
-,
-    uint16
-
-    lengthOf
-
-    ,
-
-}root 	 /// triple
-packet
-
-pack {}")).
-Eval vm_compute in ("<<<M308>>>" ++ check (runes_of_ascii "root packet options1 //	t
-{ @lengthOf( Packet )
-//x
-//	t
-repeat chars // " ++ [128512]%N ++ runes_of_ascii " emoji
-{ repeatCount
-u128 , match u as
-BodyLength/// triple
-{
-[ 65535 ] :
-// trailing space 
-//x
-packetx // a // b
-,
-3 :
-    zchar ,
-255: roots """ ++ [233]%N ++ runes_of_ascii "t" ++ [233]%N ++ runes_of_ascii """// c
-: Header}
-    , i64 Packet,	char[]	uint8x @calculatedFrom(
-""// no comment""  ) `crlf
-line`
-,
-    } , string
-trueish , @leftPad  (' '  )
-i8i8	{/// triple
-float64
-T @lengthOf( leftPad )
-    ,// @lengthOf(
-u128 `" ++ [233]%N ++ runes_of_ascii "`
-    , lengthOf, // a // b
-matchKey ,
-    },
-    repeat
-    char[1] MetaDataX	`a\`  ,
+falsey repeatCount
 // c
-// " ++ [128512]%N ++ runes_of_ascii " emoji
-@calculatedFrom( ""1"" )string chars
-    `it's` , char[] calculatedFrom
-    @lengthOf(
-    calculatedFrom) `doc`, rootA// @lengthOf(
-_x
-// `tick` ""quote"" 'q'
-/// triple
-`" ++ [28040; 24687; 31867; 22411]%N ++ runes_of_ascii "` , } MetaData calculatedFrom {  u tag `
-`,
-}
-")).
-Eval vm_compute in ("<<<M292>>>" ++ check (runes_of_ascii "packet tag	{/// triple
-@leftPad (  '\x00' )char[ 10 ]
-//	t
-// a // b
-calculatedFrom , @calculatedFrom( ""a\\"")
-    char[ // " ++ [128512]%N ++ runes_of_ascii " emoji
-65535 ] BodyLength
-,
-match i8i8 as repeatCount  { ""{,}"" : asx
-""" ++ [233]%N ++ runes_of_ascii "t" ++ [233]%N ++ runes_of_ascii """ : lengthOf/// triple
-,  [
-    10 ,""""
-    ] : crc } , @tag( // trailing space 
-10 ) match chars
-as
-    // " ++ [128512]%N ++ runes_of_ascii " emoji
-    Logon {0:
-crc ,	[ """ ++ [128512]%N ++ runes_of_ascii """  ,
-//x
-// " ++ [128512]%N ++ runes_of_ascii " emoji
-255, ""a\\"" ]:len
-    ,
-// @lengthOf(
 // " ++ [27880; 37322]%N ++ runes_of_ascii "
-} ,
-@calculatedFrom(  ""`tick`""
-    ) @calculatedFrom(""\" ++ [233]%N ++ runes_of_ascii """  ) o matchKey `crlf
-line`  ,
-@calculatedFrom( """ ++ [28040; 24687]%N ++ runes_of_ascii """ ) @lengthOf(leftPad/// triple
-)// packet A { u8 x, }
-@rightPad  (
-'0' ) char[] float@calculatedFrom( ""it's"" )
-    ,@rightPad
-(
-    '0' ) crc x
-    , Foo T ,// @lengthOf(
-zchar[  00 ] charz @lengthOf( tag )
-, }")).
-Eval vm_compute in ("<<<M230>>>" ++ check (runes_of_ascii "//x
-root packet Z9_ { @calculatedFrom( ""a\\"")zchar[ 1] // @lengthOf(
-a1 @lengthOf(
-Z9_) ,
-@tag( 0123456789
-    )@lengthOf(
-Header ) @tag( 4294967296 ) uint8 u128  ,i16 msg_type// trailing space 
-, tag matchKey, repeat i8 options1 `tab	here` , repeat /// triple
-f32a Z9_,
-/// triple
-//	t
-match tag as Foo { 42 : Logon ,
-    [ 4294967296
-    ] : Pad , 3 :a1 , [007	, 1 ]
-: a1 ,}
-    ,// packet A { u8 x, }
-repeat zchar { repeat //
-u8 options1 // c
-, leftPad
-{	msg_type ,
-} ,
-leftPad@lengthOf( string_
-)
-    `a\` ,
-    }, zchar charz , string tag @calculatedFrom(
-""{,}"")
-, // " ++ [27880; 37322]%N ++ runes_of_ascii "
-}
-    packet// @lengthOf(
-u128 {@tag(// " ++ [27880; 37322]%N ++ runes_of_ascii "
-4294967296 ) @tag( 42
-) f32a @lengthOf( float )
-    `" ++ [233]%N ++ runes_of_ascii "` ,	}
-")).
-Eval vm_compute in ("<<<M91>>>" ++ check (runes_of_ascii "options{
-T
-    =
-""x y"" ; } packet Z9_ { @leftPad
-    ('0' )
-int16
-Header @calculatedFrom(
-""1""
-    ) , options1 @lengthOf(
-    u8x )
-`// not a comment`
 ,
-    @calculatedFrom(""// no comment"" ) @lengthOf(pack //	t
-) Header {
-i32 // trailing space 
-u
-`{ , }`
-, _x	, char[
-    7 ] crc @lengthOf(i64_)  ,
-    }
+    @tag(
+    // packet A { u8 x, }
+    0	)uint16 chars `" ++ [233]%N ++ runes_of_ascii "`
+,
+x@lengthOf( asx
+/// triple
 // a // b
-// c
-, // `tick` ""quote"" 'q'
-float
-@lengthOf(
-roots ) `it's`  , } packet stringy { @rightPad( '\x00' //
-) @rightPad ( //
-'0' )
-// " ++ [27880; 37322]%N ++ runes_of_ascii "
+) `line1
+line2`, repeat options1
+a1 ,
+    @tag(
+    // @lengthOf(
+    42
+/// triple
 // packet A { u8 x, }
-@calculatedFrom( """ ++ [28040; 24687]%N ++ runes_of_ascii """ ) string a1 ,
-    f32
-uint8x // packet A { u8 x, }
-@lengthOf( charz
-// c
-// " ++ [128512]%N ++ runes_of_ascii " emoji
-) `two words`
-,
-int32
-x_y_z	@lengthOf( string_  ) //	t
-,
-}
-")).
-Eval vm_compute in ("<<<M3740>>>" ++ check (runes_of_ascii "packet tag {
-    @leftPad('\x00')
-    char[10] calculatedFrom,
-    @calculatedFrom(""a\\"")
-    char[65535] BodyLength,
-    match i8i8 as repeatCount {
-        ""{,}"" : asx,
-        """ ++ [233]%N ++ runes_of_ascii "t" ++ [233]%N ++ runes_of_ascii """ : lengthOf,
-        [10, """"] : crc,
+)	@leftPad
+    ( '\x00')match T as x { [ ""a\\"" ] : falsey
+} // `tick` ""quote"" 'q'
+, x ,
+trueish i8i8
+,}
+MetaData T
+{ MetaDataX i8i8 `it's` ,
+    } // `tick` ""quote"" 'q'")).
+Eval vm_compute in ("<<<M4258>>>" ++ check (runes_of_ascii "// @lengthOf(
+packet chars {
+    repeat leftPad {
+        i64_,/// triple
     },
-    @tag(10)
-    match chars as Logon {
-        0 : crc,
-        [255, """ ++ [128512]%N ++ runes_of_ascii """, ""a\\""] : len,
-    },
-    @calculatedFrom(""`tick`"")
-    @calculatedFrom(""\" ++ [233]%N ++ runes_of_ascii """)
-    o matchKey `crlf
-        line`,
-    @calculatedFrom(""" ++ [28040; 24687]%N ++ runes_of_ascii """)
-    @lengthOf(leftPad)
-    @rightPad('0')
-    char[] float @calculatedFrom(""it's""),
-    @rightPad('0')
-    crc x,
-    Foo T,// @lengthOf(
-    zchar[00] charz @lengthOf(tag),
-}")).
-Eval vm_compute in ("<<<M868>>>" ++ check (runes_of_ascii "packet Z9_
-{ } root packet u  {
-@lengthOf( int ) f64	tag
-`" ++ [28040; 24687; 31867; 22411]%N ++ runes_of_ascii "`	,
-    @calculatedFrom(
-// c
-/// triple
-""CRC32""
-    ) calculatedFrom
-// @lengthOf(
-/// triple
-@lengthOf(//
-a1
-    )`two words` , @rightPad (	'\x00'//	t
-) @rightPad(
-) @calculatedFrom(""it's"" ) string int
-/// triple
-// `tick` ""quote"" 'q'
-@calculatedFrom(
-    ""\n"" )`// not a comment`, repeat	f32a { string_
-    @calculatedFrom( ""abc"" ) `" ++ [28040; 24687; 31867; 22411]%N ++ runes_of_ascii "` , zchar[65535 ] metadata
-, match i8i8
-    as
-len	{""// no comment"":
-repeatCount
-,	[
-    ""{,}""
-// c
-//x
-, 65535] : Header
-,} ,  } ,
-}packet int {
-repeat int32 pack `tab	here` , }
-")).
-Eval vm_compute in ("<<<M4220>>>" ++ check (runes_of_ascii "packet asx {
-    options1 @calculatedFrom(""" ++ [128512]%N ++ runes_of_ascii """),
-    A u,
-    char[1] body,
-}
-
-MetaData u {
-    zchar[1] options1,
-}
-
-packet falsey {
-    repeat Foo {
-        zchar[4294967296] charz @lengthOf(roots),
-    },
-    float,
-    @lengthOf(u8x)
-    @calculatedFrom(""{,}"")
-    @leftPad('0')
-    repeat u128 MetaDataX `u8 x,`,
-    @tag(255)
-    @rightPad()
-    repeat calculatedFrom {
-        repeat string f32a,
-        match _x as x {
-            ""a	b"" : A,
-        },
-        float32 zchar `
-        `,
-        string string_ `line1
+    BodyLength {
+        //	t
+        char[1] _x `line1
         line2`,
     },
-}")).
-Eval vm_compute in ("<<<M3978>>>" ++ check (runes_of_ascii "//
-packet u8x {
-    repeat int _x `line1
-    line2`,
-    @lengthOf(rootA)
-    int16 leftPad,
-    repeat Logon _x,
+    @calculatedFrom(""" ++ [233]%N ++ runes_of_ascii "t" ++ [233]%N ++ runes_of_ascii """)
+    repeat zchar body,
+    char[65535] Foo,
+    repeat zchar[7] repeatCount,
+    @lengthOf(Logon)
+    @calculatedFrom(""{,}"")
+    //
+    string float,
+    u8x,
+    uint8x @calculatedFrom(""packet""),
+}//x
+
+MetaData T {
+    u16 zchar `tab	here`,
+    float64 x,// packet A { u8 x, }
+    i32 Packet ``,// `tick` ""quote"" 'q'
+    zchar[255] crc,
+    calculatedFrom u128,
+    zchar[1] metadata `
+    `,
 }
 
-packet float {
-    repeat u8x {
-        match asx as asx {
-            ""a\""b"" : BodyLength,
-            [0] : len,
-            //	t
-            """ ++ [28040; 24687]%N ++ runes_of_ascii """ : BodyLength,
-            [0, ""\" ++ [233]%N ++ runes_of_ascii """] : leftPad,
-            4294967296 : T,
-        },
+packet uint8x {
+    Header {
+        uint16 metadata @lengthOf(MetaDataX) `line1
+        line2`,
     },
-    chars {
-        match Pad as zchar {
-            10 : i8i8,
-            [3, 10] : u8x,
-        },
-        zchar[4294967296] stringy @calculatedFrom(""\" ++ [233]%N ++ runes_of_ascii """),
-    },
+    // " ++ [27880; 37322]%N ++ runes_of_ascii "
+    // @lengthOf(
+    metadata repeatCount,
+    repeat x_y_z,
+    chars A,
+    packetx @calculatedFrom(""a\\"") ``,
+    char[007] a1 @lengthOf(A) `" ++ [28040; 24687; 31867; 22411]%N ++ runes_of_ascii "`,/// triple
+}
+
+options {
+    matchKey = float32;
+}
+
+packet f32a {
+    @lengthOf(repeatCount)
+    // @lengthOf(
+    @tag(42)
+    // `tick` ""quote"" 'q'
+    float32 u128,
 }")).
-Eval vm_compute in ("<<<M3469>>>" ++ check (runes_of_ascii "packet A // c1
-{ // c2
-u8 // c3
+Eval vm_compute in ("<<<M3548>>>" ++ check (runes_of_ascii "options {
+    StringPrefixLenType = u8;
+    ArrayPrefixLenType = u32;
+    FixedStringPadFromLeft = false;
+    FixedStringPadChar = ' ';
+}
+packet Party {
+    repeat i16 Qty,
+    repeat string Tail,
+    i8 OrderId,
+    i8 msgKind,
+}
+packet Ack {
+    Party,
+    repeat InRef20 {
+        Party,
+        int8 tag7,
+        char[5] OrderId,
+        zchar[7] Tail,
+        char[] count,
+        InPrice45 {
+            Party,
+            char[1] Px,
+        },
+    },
+    char[12] price,
+    int8 sym,
+}
+packet Reject {
+    repeat InPrice47 {
+        Party,
+    },
+    zchar[4] x,
+    repeat Ack,
+    zchar[2] Ref,
+    repeat Party,
+}
+packet Cancel {
+    Reject,
+    repeat string f1,
+    uint16 OrderId,
+    u8 Acct,
+    int8 msgKind,
+}
+root packet Fill {
+    u8 count,
+    char[] tag7,
+    zchar[7] Acct,
+    u32 OrderId,
+    u32 Note @lengthOf(Body),
+    match OrderId as Body {
+        106 : Cancel,
+        196 : Reject,
+        74 : Party,
+        75 : Ack,
+    },
+}
+")).
+Eval vm_compute in ("<<<M3770>>>" ++ check (runes_of_ascii "root packet matchKey {
+    match uint8x as x_y_z {
+        1 : falsey,
+    },
+}
+
+packet MetaDataX {
+    /// triple
+    float @calculatedFrom(""a\\"") `// not a comment`,
+    repeat stringy {
+        match repeatCount as a1 {
+            [""// no comment""] : metadata,
+            //	t
+            [4294967296, """ ++ [233]%N ++ runes_of_ascii "t" ++ [233]%N ++ runes_of_ascii """] : len,
+            [
+                ""a\\"", 4294967296, ""packet"", """ ++ [233]%N ++ runes_of_ascii "t" ++ [233]%N ++ runes_of_ascii """, 10,
+                0
+            ] : charz,
+            00 : i64_,
+            [7] : tag,
+            00 : falsey,
+        },
+    },
+    roots @calculatedFrom(""1"") `
+        `,
+    msg_type @lengthOf(stringy) `a\`,
+    int MetaDataX `doc`,
+    @calculatedFrom(""" ++ [128512]%N ++ runes_of_ascii """)
+    u64 int `say ""hi""`,
+}
+
+packet rootA {
+    asx @lengthOf(Foo) `a\`,
+    @leftPad(' ')
+    string Z9_,
+    crc @lengthOf(leftPad) `doc`,
+    repeat calculatedFrom u128 `{ , }`,//x
+    @calculatedFrom(""packet"")
+    @calculatedFrom(""\" ++ [233]%N ++ runes_of_ascii """)
+    i16 roots `doc`,
+}")).
+Eval vm_compute in ("<<<M1381>>>" ++ check (runes_of_ascii "packet
+chars{ @lengthOf(
+zchar )@tag( 42) match	roots as As {
+255 : x
+    ,
+    0123456789
+    : charz
+, 3	:
+T}
+// @lengthOf(
+// @lengthOf(
+, match body as Logon
+    {
+    ""packet"" : metadata , },  match
+As
+as i64_ { 7
+:metadata ,00: i64_ , [ ""a\""b"", ""\n"" , """ ++ [28040; 24687]%N ++ runes_of_ascii """
+    ] // a // b
+:// c
+falsey  ""abc"" : i8i8 , 7	: u128  , } , //
+BodyLength  @lengthOf(//x
+stringy )
+`// not a comment`, repeat f64
+    // trailing space 
+    BodyLength,
+int64  Z9_
+    ,
+    @calculatedFrom( ""// no comment""
+    // `tick` ""quote"" 'q'
+    ) @leftPad( '0' )	@tag(	3 )repeat char[	007 ]	chars, f64 x_y_z , stringy
+`u8 x,` ,@lengthOf( // a // b
+i8i8) // trailing space 
+roots rootA
+, } options { matchKey =
+float32
+    ;Z9_ = u8 f32a= true } root packet u128 { @rightPad (
+'\x00' ) Pad falsey`// not a comment` , //x
+int32 Z9_ @lengthOf( falsey ) ,
+//
+// @lengthOf(
+}
+")).
+Eval vm_compute in ("<<<M688>>>" ++ check (runes_of_ascii "packet
+Header
+{
+    @lengthOf( o)
+zchar[
+255
+    ] pack	@lengthOf( len) `a\`
+, @calculatedFrom( """ ++ [128512]%N ++ runes_of_ascii """
+) repeat Foo {
+float @lengthOf(
+    asx ) // packet A { u8 x, }
+, repeat body ,repeat x{	As @lengthOf(
+// packet A { u8 x, }
+// a // b
+Foo	) // a // b
+`doc` ,	string uint8x
+// packet A { u8 x, }
+// packet A { u8 x, }
+@lengthOf(msg_type) , } ,
+    // `tick` ""quote"" 'q'
+    },@leftPad ('0'
+)
+    @rightPad
+    //x
+    (
+'0'
+    ) x@calculatedFrom(	""" ++ [233]%N ++ runes_of_ascii "t" ++ [233]%N ++ runes_of_ascii """ ) ,@tag( // " ++ [27880; 37322]%N ++ runes_of_ascii "
+00 ) msg_type
+    @calculatedFrom( """ ++ [128512]%N ++ runes_of_ascii """ ), @tag(65535 ) repeat
+// " ++ [128512]%N ++ runes_of_ascii " emoji
+//	t
+x_y_z ,@tag( 1 )
+// c
+// " ++ [27880; 37322]%N ++ runes_of_ascii "
+zchar[4294967296] matchKey
+    , packetx , repeat charz packetx
+    `line1
+line2`  ,
+int32 x  @calculatedFrom(
+""\n"") ,	} root
+    packet int { @leftPad(
+/// triple
+// trailing space 
+) char zchar	@lengthOf(Pad
+    )
+`// not a comment`
+,} //x")).
+Eval vm_compute in ("<<<M1039>>>" ++ check (runes_of_ascii "packet a1 { chars { len{ Logon len , string string_ , u8x @calculatedFrom(
+    ""a\\""
+// a // b
+// c
+) ,  repeat
+    float{ body int `" ++ [233]%N ++ runes_of_ascii "`
+, }
+    ,	}, repeat As { repeat i64_
+    f32a `{ , }` , A@calculatedFrom( ""\" ++ [233]%N ++ runes_of_ascii """
+) , int64	float
+    //	t
+    ,
+    }
+,match x as chars {[
+    """ ++ [128512]%N ++ runes_of_ascii """
+    ,
+007	, ""x y"" ,
+00 , ""x y"",
+10 ] :  string_ 10 : float , 4294967296:	x_y_z , [ """ ++ [233]%N ++ runes_of_ascii "t" ++ [233]%N ++ runes_of_ascii """ //	t
+, 10 , 42  ,""" ++ [28040; 24687]%N ++ runes_of_ascii """ ,
+0123456789 ,	42
+    ,10]  : T 00
+: leftPad// trailing space 
+,  }, crc @lengthOf( u128
+// " ++ [128512]%N ++ runes_of_ascii " emoji
+// trailing space 
+) //x
+,  } ,
+    char[] packetx@calculatedFrom( ""abc"" )`line1
+line2`
+,	int32 repeatCount @lengthOf(
+Foo ) `it's` //	t
+, match Packet /// triple
+as string_  {
+42
+/// triple
+// trailing space 
+:f32a , 255 :
+    MetaDataX
+1: i8i8
+"""" : a1  ,//	t
+} , _x@lengthOf( chars) ,	}")).
+Eval vm_compute in ("<<<M145>>>" ++ check (runes_of_ascii "
+packet
+// `tick` ""quote"" 'q'
+// `tick` ""quote"" 'q'
+rootA{ @tag( 3  ) zchar[
+00 ] // trailing space 
+x_y_z
+    `" ++ [28040; 24687; 31867; 22411]%N ++ runes_of_ascii "`  , _x ,
+    // a // b
+    float64
+    A
+@lengthOf( //
+u8x ) , u8 rootA`line1
+line2`	, zchar[ 7
+    ] // c
+stringy,
+match Header as f32a { ""\" ++ [233]%N ++ runes_of_ascii """:	o ,[
+    // `tick` ""quote"" 'q'
+    4294967296
+, 7 ,// c
+4294967296
+, ""packet"" , ""a	b"" , ""CRC32"" ,	7 ,
+""a	b""// trailing space 
+]	: // packet A { u8 x, }
+repeatCount, ""a\""b"" :
+    Header  [""a\""b"" ] :
+crc  ,	[  007
+,
+007, ""abc"" ] :
+    metadata, 4294967296 : chars ,
+} // " ++ [128512]%N ++ runes_of_ascii " emoji
+, @tag( 1 ) i8 matchKey	`a\` ,
+// @lengthOf(
+// " ++ [128512]%N ++ runes_of_ascii " emoji
+@lengthOf(
+    body ) tag ,@lengthOf( matchKey
+)
+    @lengthOf(  o	)  @lengthOf( pack
+    ) repeat u {
+calculatedFrom @lengthOf( falsey  ), } , }
+")).
+Eval vm_compute in ("<<<M628>>>" ++ check (runes_of_ascii "root packet _x { //	t
+uint16
+_x, @tag( 7 ) repeat uint32 crc `line1
+line2`,match stringy as packetx
+{  255 : len , 255 //x
+:A ,
+    1 :
+    //
+    Z9_,
+""it's""
+    // trailing space 
+    :
+body[
+""{,}"" , ""packet"" // trailing space 
+, 0, ""\n"" ]:
+// `tick` ""quote"" 'q'
+// `tick` ""quote"" 'q'
+x , }
+,repeat
+    uint32
+Logon `tab	here` ,} packet string_
+    { string asx @lengthOf( float )
+// c
+// packet A { u8 x, }
+,@calculatedFrom(	""a\\""
+) match	chars as x { 42 : A
+    , """ ++ [28040; 24687]%N ++ runes_of_ascii """
+    : T ""a\\"" : tag //
+, 3 // trailing space 
+: i8i8
+[ 255 ] :MetaDataX /// triple
+,} ,
+float64 zchar	,@lengthOf( calculatedFrom )int
+falsey ,
+i16 Packet @calculatedFrom(
+    ""// no comment"") `say ""hi""`
+    ,@lengthOf( rootA
+)trueish ,}")).
+Eval vm_compute in ("<<<M4461>>>" ++ check (runes_of_ascii "options {
+    trueish = 4294967296;
+}
+
+root packet float {
+}
+
+packet Header {
+    repeat Logon,
+    @tag(0123456789)
+    uint8 asx `say ""hi""`,
+    int @calculatedFrom(""a	b""),
+    repeat Logon,
+}
+
+packet i64_ {
+    /// triple
+    repeat char[0123456789] metadata `u8 x,`,
+    repeat f32 Packet,
+    repeat crc {
+        int16 body `" ++ [28040; 24687; 31867; 22411]%N ++ runes_of_ascii "`,
+        int32 stringy,
+        // @lengthOf(
+        repeat char[65535] int,
+        u64 zchar,
+    },
+    @rightPad('\x00')
+    @calculatedFrom(""abc"")
+    @rightPad(' ')
+    rootA o,
+    repeat string msg_type,
+    //x
+    /// triple
+    char[3] i8i8 `two words`,
+    @calculatedFrom(""// no comment"")
+    /// triple
+    f32a @lengthOf(Z9_),
+}")).
+Eval vm_compute in ("<<<M4251>>>" ++ check (runes_of_ascii "root packet packetx {
+    match x as repeatCount {
+        65535 : i8i8,
+        10 : x_y_z,
+        42 : packetx,
+        0123456789 : metadata,
+        [""\" ++ [233]%N ++ runes_of_ascii """] : x_y_z,
+        ""a\\"" : i8i8,
+    },
+    stringy {
+        // c
+        stringy i64_,
+        repeat Header As `two words`,
+    },
+    repeat char[007] u8x `line1
+        line2`,
+    @lengthOf(charz)
+    // packet A { u8 x, }
+    @leftPad('0')
+    int16 BodyLength,
+    repeat float32 repeatCount,
+    match trueish as MetaDataX {
+        ""a	b"" : x,
+    },
+    char[0] matchKey @lengthOf(float),
+    @lengthOf(i64_)
+    @lengthOf(repeatCount)
+    // " ++ [27880; 37322]%N ++ runes_of_ascii "
+    @lengthOf(float)
+    f32 Z9_,
+}")).
+Eval vm_compute in ("<<<M4273>>>" ++ check (runes_of_ascii "
+options
+
+{ LittleEndian
+=
+
+true  ;
+FixedStringPadFromLeft = true;
+FixedStringPadChar=
+'0' ;
+
+    } packet Trade  {
+
+string
+    clOrdID  , char[]	Px  ,
+
+    u32
+	x
+
+    ,
+
+    }	packet	Reject {int32  Side2 ,	repeat
+	char[  3]clOrdID 
+,
+i32 tag7 , }  packet
+
+Leg  {  } root
+	packet
+	Quote
+
+    {string
+
+    Side2
+	, 
+string
+
+lastPx
+,
+
+InSym58 {
+int16
+OrderId , Reject	,
+    i8	Qty,
+	i64
+    venue
+,f32
+Note
+    , }
+
+    ,
+
+    char[]count
+
+,
+zchar[ 
+9
+]price
+
+, 
+u16 Qty ,	match
+Qty
+as 
+Body
+{	69 : 
+Leg
+	,
+48
+
+: Trade 
+, 51  :
+Reject
+
+,
+
+    }
+,u16
+Acct 
+@calculatedFrom(
+""CRC32""
+
+    )
+, 
+}
+")).
+Eval vm_compute in ("<<<M897>>>" ++ check (runes_of_ascii "packet
+leftPad
+    {
+    @tag(
+    00
+) As chars  , u8
+i8i8
+    , match o
+as chars
+{	[""{,}""
+,
+    ""1"" , ""abc""
+,
+42 ,
+    // " ++ [27880; 37322]%N ++ runes_of_ascii "
+    ""packet"" ,00 ,
+"""",//
+""a\""b""
+    ]: uint8x ,
+""// no comment"" : calculatedFrom  ,  0 : int""packet"" :u
+//	t
+//x
+, /// triple
+""CRC32""
+    : As , 0 : len
+    , } ,char[ 0123456789] float
+@calculatedFrom(""CRC32"" ) ,
+    Pad chars`two words`
+,  string
+    stringy
+@calculatedFrom(""""// packet A { u8 x, }
+)
+,  @calculatedFrom(""`tick`""
+)// packet A { u8 x, }
+roots @lengthOf(
+    MetaDataX  )
+    ,
+@tag(	4294967296)u32
+A
+    `` , Foo ,
+    f32
+matchKey , }
+")).
+Eval vm_compute in ("<<<M4144>>>" ++ check (runes_of_ascii "  root packet  
+  /// triple
+  stringy{
+
+    stringy  pack	,
+	char[
+	1	]T// @lengthOf(
+  @calculatedFrom(""// no comment""
+
+)
+	,
+zchar[
+    4294967296
+
+    ]
+
+    stringy
+	@calculatedFrom(
+""CRC32""
+)`doc`
+	,
+    zchar[	1
+    ]
+	body  @lengthOf(
+A
+)	,
+
+    asx 
+@lengthOf(
+
+Packet
+
+    )
+	`two words`// packet A { u8 x, }
+	,
+    leftPad
+
+    @calculatedFrom(
+""\n"")`it's`
+
+, i16 f32a 
+// @lengthOf(
+	, 
+} MetaData
+	metadata
+    {
+
+char[
+
+    7
+	]crc
+
+,
+options1
+u128`two words` ,
+    falsey calculatedFrom
+, string_
+
+As	//x
+    , }")).
+Eval vm_compute in ("<<<M3475>>>" ++ check (runes_of_ascii "packet A // c1a
+  // c1b
+{
+    // c2
+u8 // c3a
+  // c3b
 a
     // c4
 ,
     // c5
-}
-    // c6
+} // c6a
+  // c6b
 packet
     // c7
-B { // c9
-u16 // c10
-b , // c12
-}
-    // c13
-root
-    // c14
-packet // c15
-P { u8 // c18
-K1 // c19a
-  // c19b
-, // c20a
-  // c20b
-u8 K2 , // c23a
-  // c23b
-match K1
-    // c25
-as
-    // c26
-M1 // c27
-{ 1 // c29
-: // c30
-A // c31
-, // c32a
-  // c32b
-} // c33
-, // c34
-match // c35
-K2 // c36a
-  // c36b
-as
-    // c37
-M2 // c38
-{ // c39
-1 : // c41a
-  // c41b
-B // c42a
-  // c42b
-, // c43
-} // c44a
-  // c44b
-, } ")).
-Eval vm_compute in ("<<<M350>>>" ++ check (runes_of_ascii "packet uint8x{ string_	{ repeat zchar
-    {
-// `tick` ""quote"" 'q'
-//x
-match u128
-as A{42 : pack
-    , }, // " ++ [27880; 37322]%N ++ runes_of_ascii "
-int64  u128	, repeatCount `it's` // trailing space 
-, string asx
-//	t
-//	t
-@calculatedFrom( ""a\""b"" ) , }
-    ,
-matchKey
-@calculatedFrom( ""1"" ) , } ,
-match o as
-Z9_
+B // c8
 {
-    // a // b
-    [ 7	] : uint8x ,
-[ 00 // `tick` ""quote"" 'q'
-,// " ++ [128512]%N ++ runes_of_ascii " emoji
-""" ++ [233]%N ++ runes_of_ascii "t" ++ [233]%N ++ runes_of_ascii """  , ""\" ++ [233]%N ++ runes_of_ascii """// trailing space 
-]  : Packet ,// a // b
-} ,f32
-A, }root
-    packet Foo{	repeat	float32	msg_type , }
-")).
-Eval vm_compute in ("<<<M4349>>>" ++ check (runes_of_ascii "root packet roots {
-}
-
-packet As {
-    @calculatedFrom(""" ++ [28040; 24687]%N ++ runes_of_ascii """)
-    i16 msg_type `" ++ [28040; 24687; 31867; 22411]%N ++ runes_of_ascii "`,
-    repeat repeatCount {
-        repeat pack msg_type `crlf
-        line`,//
-        match repeatCount as _x {
-            ""`tick`"" : trueish,
-            // c
-            [65535, 255, 0123456789, ""\n"", ""abc""] : options1,
-        },//x
-    },
-}
-
-MetaData x_y_z {
-    options1 chars,
-    int32 leftPad `{ , }`,
-    string i64_ `say ""hi""`,
-    int32 BodyLength `a\`,
-}")).
-Eval vm_compute in ("<<<M3866>>>" ++ check (runes_of_ascii "packet chars {
-    match tag as BodyLength {
-        7 : roots,
-        ""a\\"" : lengthOf,
-        ""1"" : chars,
-    },
-    @leftPad('\x00')
-    _x @lengthOf(MetaDataX),
-    repeat x {
-        match Logon as options1 {
-            //	t
-            3 : Pad,
-            [7, 3, ""abc"", ""x y""] : o,
-            [4294967296] : leftPad,
-            """ ++ [28040; 24687]%N ++ runes_of_ascii """ : Pad,
-        },
-        zchar[0123456789] leftPad,
-        stringy T,
-    },
-}
-
-options {
-}")).
-Eval vm_compute in ("<<<M1110>>>" ++ check (runes_of_ascii "options{ //x
-}
-packet
-// " ++ [27880; 37322]%N ++ runes_of_ascii "
-//x
-crc { @rightPad ( ) // " ++ [128512]%N ++ runes_of_ascii " emoji
-match lengthOf as _x {
-    ""{,}"" :charz,//	t
-[ """ ++ [28040; 24687]%N ++ runes_of_ascii """
-, 255
-    //	t
-    ] : u8x ,[
-    // @lengthOf(
-    ""CRC32"" ,	65535 , ""it's"", """ ++ [128512]%N ++ runes_of_ascii """,	""it's""
-    , 3// c
+    // c9
+u16
+    // c10
+b // c11a
+  // c11b
+, } root
+    // c14
+packet P
+    // c16
+{ // c17
+u8 K , // c20
+match
+    // c21
+K // c22
+as // c23
+M
+    // c24
+{
+    // c25
+[
+    // c26
+1 // c27a
+  // c27b
+, 2 ] // c30
+:
+    // c31
+A
+    // c32
+, // c33a
+  // c33b
+3
+    // c34
+: // c35a
+  // c35b
+B , // c37
+7 : // c39a
+  // c39b
+A // c40
 ,
-255 ]
-    :As , ""it's"" :
-    options1
-    ,
-3 :
-chars , 42  :
-    metadata ,	},
-}root	packet
-//x
-// c
-BodyLength {
-match string_ as
-Z9_ {  0123456789 : leftPad , }, } MetaData float { crc msg_type , }")).
-Eval vm_compute in ("<<<M720>>>" ++ check (runes_of_ascii "packet crc{ @tag(
-255 )	u64	int//x
-,	As len , stringy @lengthOf( A// `tick` ""quote"" 'q'
-) `line1
-line2` ,
-    match
-// a // b
+    // c41
+}
+    // c42
+, // c43a
+  // c43b
+}
+    // c44
+")).
+Eval vm_compute in ("<<<M3749>>>" ++ check (runes_of_ascii "root packet a1 {
+    int16 u8x,
+    match pack as i8i8 {
+        ""packet"" : i64_,
+        [
+            1, 7, 007, 0123456789, """ ++ [233]%N ++ runes_of_ascii "t" ++ [233]%N ++ runes_of_ascii """,
+            0
+        ] : chars,
+        [
+            7, ""a\\"", ""a\""b"", 007, 0,
+            ""// no comment""
+        ] : A,
+    },
+    int64 metadata,
+    @lengthOf(roots)
+    len,
+    repeat As `it's`,//	t
+    repeat calculatedFrom {
+        repeat options1 stringy,
+        calculatedFrom matchKey `" ++ [28040; 24687; 31867; 22411]%N ++ runes_of_ascii "`,
+        float32 options1 @lengthOf(float),
+    },
+}")).
+Eval vm_compute in ("<<<M187>>>" ++ check (runes_of_ascii "root packet A
+{  match
+u8x as body {
+7:
+    BodyLength // trailing space 
+, 007 : _x , 10 :
+    Header},// `tick` ""quote"" 'q'
+@lengthOf( pack ) tag @lengthOf( rootA  )
+,match a1 as  calculatedFrom
+{ 1 :
+string_
+, } ,  @lengthOf( x_y_z
+) a1,
+    @lengthOf(	MetaDataX
+) int ,} packet
+repeatCount { uint64 string_ `two words` , } options	{chars
+    = false; float
+//	t
 // " ++ [27880; 37322]%N ++ runes_of_ascii "
-a1
-as  o{ """" :	Header , ""packet""// a // b
-: i8i8  ,	""" ++ [128512]%N ++ runes_of_ascii """ : body ,
-[ ""`tick`"" ]: // trailing space 
-i64_
-, ""CRC32"" :BodyLength
-    // c
-    ""{,}"": _x ,}
-    ,	o, @tag(
-42 // " ++ [27880; 37322]%N ++ runes_of_ascii "
-) packetx
-{ zchar[ 00 ]
-// c
-// packet A { u8 x, }
-stringy
+= """ ++ [28040; 24687]%N ++ runes_of_ascii """ crc=u8 a1 = 1;
+} MetaData // a // b
+leftPad {
+    u128 Header , } options {
+    }
+
+")).
+Eval vm_compute in ("<<<M1176>>>" ++ check (runes_of_ascii "
+MetaData
+roots	{	char[
+42 ] // @lengthOf(
+packetx`u8 x,`
+    ,	}
+    MetaData
+len { u128 rootA`
+`
     ,
-    } ,
-    // " ++ [128512]%N ++ runes_of_ascii " emoji
-    } 	 ")).
-Eval vm_compute in ("<<<M90>>>" ++ check (runes_of_ascii "options{ calculatedFrom
-= '0'; }
-root
-    // " ++ [128512]%N ++ runes_of_ascii " emoji
-    packet metadata{i64 float@calculatedFrom( ""1"" )	,	@rightPad ( // trailing space 
-) Logon u `crlf
-line` , // trailing space 
-falsey Packet `line1
-line2` , u32	a1  `tab	here`, } // " ++ [128512]%N ++ runes_of_ascii " emoji
-options { lengthOf
-    // packet A { u8 x, }
-    = '\x00'
-msg_type =
-uint8;repeatCount
-    // `tick` ""quote"" 'q'
-    =
-0123456789 ; } //x")).
+roots
+trueish `doc`
+// a // b
+// `tick` ""quote"" 'q'
+,// trailing space 
+uint64 x_y_z
+    , u32 string_ , options1 int, i8 charz `it's`,
+// " ++ [128512]%N ++ runes_of_ascii " emoji
+//
+} MetaData int {
+// trailing space 
+// " ++ [27880; 37322]%N ++ runes_of_ascii "
+}
+    packet len
+{  @calculatedFrom(
+""a\\"")
+string Header
+`doc` , }packet o
+{ @leftPad
+    // c
+    (' ' ) char[] // c
+crc@calculatedFrom(""{,}"" )	, }
+")).
+Eval vm_compute in ("<<<M3669>>>" ++ check (runes_of_ascii "MetaData Logon {
+    zchar[3] a1 `" ++ [28040; 24687; 31867; 22411]%N ++ runes_of_ascii "`,
+    char[007] MetaDataX `a\`,
+}
+
+root packet pack {
+}
+
+packet i64_ {
+    @lengthOf(chars)
+    len {
+        uint8 rootA `doc`,
+        string_ `crlf
+        line`,//	t
+        match charz as Foo {
+            42 : options1,
+            [255] : charz,
+        },
+    },
+    roots repeatCount `two words`,
+    //	t
+    string Logon @calculatedFrom(""a\""b""),
+    @calculatedFrom(""a\\"")
+    Z9_,
+}//x")).
+Eval vm_compute in ("<<<M1033>>>" ++ check (runes_of_ascii "packet Pad /// triple
+{i16  A @calculatedFrom(
+""a\""b"" ) ,}
+    packet roots{ @tag(// trailing space 
+65535 )repeat f32a{
+    char[ 00] a1 @calculatedFrom( ""a\\"" ) , float32
+x_y_z , len // packet A { u8 x, }
+{
+// `tick` ""quote"" 'q'
+// c
+stringy
+    u8x `
+`
+    ,
+    }
+//
+// packet A { u8 x, }
+, f32 Foo@calculatedFrom(
+""a\""b""
+) ,
+} ,
+@calculatedFrom(""1""
+) u64	calculatedFrom	,
+    u32 u8x , u32	calculatedFrom
+`` , }
+")).
+Eval vm_compute in ("<<<M784>>>" ++ check (runes_of_ascii "packet Header
+{stringy@calculatedFrom( ""x y"" ) ,
+    @tag(0	) uint64 trueish
+    //	t
+    ,
+    uint8x , trueish BodyLength,crc chars , } MetaData
+As { char[]A ,u8x trueish
+//	t
+//
+`
+` , uint16
+// trailing space 
+// " ++ [27880; 37322]%N ++ runes_of_ascii "
+leftPad`" ++ [233]%N ++ runes_of_ascii "` , i16 u8x // c
+,
+// trailing space 
+// @lengthOf(
+f64
+    f32a  `tab	here` ,}
+    packet i8i8
+{repeat int `line1
+line2` ,} MetaData
+    len {
+crc string_`crlf
+line`, }
+")).
+Eval vm_compute in ("<<<M3917>>>" ++ check (runes_of_ascii "
+packet body 
+{ @rightPad ('0'	) Packet  a1
+	,
+asx ,repeatCount
+	// trailing space 
+	// packet A { u8 x, }
+{ // trailing space 
+	repeat  int64
+
+falsey ,
+
+    }
+    ,@rightPad
+    // c
+    // a // b
+(	'0'
+)
+	match int
+    // " ++ [27880; 37322]%N ++ runes_of_ascii "
+
+  as
+    T  { 4294967296 
+: _x
+    ,
+    00
+
+:
+	string_ 	 // c
+  ,
+[ 
+""x y""
+]	: stringy
+
+,}
+
+    ,// packet A { u8 x, }
+  uint32
+x_y_z	,
+
+    }
+")).
 Eval vm_compute in ("<<<M190>>>" ++ check (runes_of_ascii "packet x_y_z
     {@calculatedFrom( """"
 ) repeat
@@ -1453,472 +1459,62 @@ i32 float, } options
     {Pad =  4294967296 ; leftPad
 = """ ++ [233]%N ++ runes_of_ascii "t" ++ [233]%N ++ runes_of_ascii """}
 ")).
-Eval vm_compute in ("<<<M4179>>>" ++ check (runes_of_ascii "  // @lengthOf(
-
-packet
-	_x
-
-    {
-@calculatedFrom( ""a	b""
-
-    )  T	rootA ``,
-
-    u64
-    body 
-@calculatedFrom(
-""a	b""  ) 
-
-//x
-	`two words`, zchar[
-	7
-
-    ]
-    MetaDataX@calculatedFrom(
-    ""it's"" ) `say ""hi""` /// triple
-
-	,
-
-// trailing space 
-    // `tick` ""quote"" 'q'
-f32a{
-
-repeat
-zchar[
-	00
-    ] roots `" ++ [233]%N ++ runes_of_ascii "` 
-, }
-,}// `tick` ""quote"" 'q'")).
-Eval vm_compute in ("<<<M541>>>" ++ check (runes_of_ascii "//x
-packet Header{// " ++ [27880; 37322]%N ++ runes_of_ascii "
-i64 trueish ,	string lengthOf ,match u128 as charz {// packet A { u8 x, }
-""" ++ [128512]%N ++ runes_of_ascii """	: body
-    } ,trueish `` // packet A { u8 x, }
-,
-    tag
-int
-, Foo { //
-match asx  as options1  {65535 :
-x_y_z // `tick` ""quote"" 'q'
-,} ,	zchar trueish, } ,string Foo
-    ,@leftPad
-(
-)
-As @calculatedFrom(""" ++ [28040; 24687]%N ++ runes_of_ascii """ )
-,
-}
-MetaData u8x {} 	 ")).
-Eval vm_compute in ("<<<M435>>>" ++ check (runes_of_ascii "// trailing space 
-packet i64_ {uint8	body , @calculatedFrom(
-""\n"" ) repeat BodyLength {repeat
-// trailing space 
-// packet A { u8 x, }
-crc	len
-`" ++ [233]%N ++ runes_of_ascii "`
-, As , repeat char[] Header
-,
-}, match T as T { 3 : repeatCount ,}  , match tag
-    as pack {	""a	b""://
-string_  , } ,
-    zchar[10  ] a1 ``
-    ,
-@tag( 3//	t
-) string int ,
-}
-")).
-Eval vm_compute in ("<<<M4097>>>" ++ check (runes_of_ascii "root packet packetx {
-    char[65535] u,
-    @lengthOf(MetaDataX)
-    @lengthOf(rootA)
-    @lengthOf(u8x)
-    zchar[3] zchar `
-        `,
-    // packet A { u8 x, }
-    //	t
-    lengthOf len,
-    repeat A {
-        // c
-        lengthOf @calculatedFrom(""x y""),
-        zchar[007] zchar @lengthOf(float),
+Eval vm_compute in ("<<<M4032>>>" ++ check (runes_of_ascii "root packet asx {
+    @calculatedFrom(""CRC32"")
+    match chars as trueish {
+        """" : T,
+        42 : f32a,
+        ""{,}"" : calculatedFrom,
+        255 : A,
     },
-}")).
-Eval vm_compute in ("<<<M811>>>" ++ check (runes_of_ascii "options {
-    crc
-    // a // b
-    =""{,}"";
-body	=	1
-; }//x
-options { MetaDataX
-=
-    char[] ;chars
-// a // b
-// trailing space 
-=10
-; }// " ++ [128512]%N ++ runes_of_ascii " emoji
-packet
-    // " ++ [128512]%N ++ runes_of_ascii " emoji
-    falsey {
-@lengthOf( body
-//	t
-// a // b
-)i16 i64_ `u8 x,`  , // a // b
-@leftPad  (
-) roots @lengthOf(	packetx ) , zchar, }
-")).
-Eval vm_compute in ("<<<M1465>>>" ++ check (runes_of_ascii "root packet Foo // " ++ [128512]%N ++ runes_of_ascii " emoji
-{ } options {
-    // a // b
-    tag // `tick` ""quote"" 'q'
-= //	t
-""""
-    ; u8x u8x = zchar[0  ] }
-MetaData
-    int {zchar[ 10]
-lengthOf	`` , i64 u8x`// not a comment` ,MetaDataX pack// `tick` ""quote"" 'q'
-`crlf
-line`
-, Logon charz `crlf
-line`
-    ,
-    // a // b
-    }
-")).
-Eval vm_compute in ("<<<M1460>>>" ++ check (runes_of_ascii "root packet Foo // " ++ [128512]%N ++ runes_of_ascii " emoji
-{ } options {
-    // a // b
-    tag // `tick` ""quote"" 'q'
-= //	t
-""""
-    ; ; u8x = zchar[0  ] }
-MetaData
-    int {zchar[ 10]
-lengthOf	`` , i64 u8x`// not a comment` ,MetaDataX pack// `tick` ""quote"" 'q'
-`crlf
-line`
-, Logon charz `crlf
-line`
-    ,
-    // a // b
-    }
-")).
-Eval vm_compute in ("<<<M1623>>>" ++ check (runes_of_ascii "root packet Foo // " ++ [128512]%N ++ runes_of_ascii " emoji
-{ } options {
-    // a // b
-    tag // `tick` ""quote"" 'q'
-= //	t
-""""
-    ; u8x = zchar[0  ] }
-MetaData
-    int {zchar[ 10]
-lengthOf	`` , i64 u8x`// not a comment` ,MetaDataX pack// `tick` ""quote"" 'q'
-`crlf
-line`
-, caf" ++ [233]%N ++ runes_of_ascii "_1 charz `crlf
-line`
-    ,
-    // a // b
-    }
-")).
-Eval vm_compute in ("<<<M1561>>>" ++ check (runes_of_ascii "root packet Foo // " ++ [128512]%N ++ runes_of_ascii " emoji
-{ } options {
-    // a // b
-    tag // `tick` ""quote"" 'q'
-= //	t
-""""
-    ; u8x = zchar[0  ] }
-MetaData
-    int {zchar[ 10]
-lengthOf	`` , i64 u8x`// not a comment` ,pack MetaDataX// `tick` ""quote"" 'q'
-`crlf
-line`
-, Logon charz `crlf
-line`
-    ,
-    // a // b
-    }
-")).
-Eval vm_compute in ("<<<M318>>>" ++ check (runes_of_ascii "
-packet As { @leftPad
-( )
-    @leftPad ( ' '  )char[] zchar, A string_
-`" ++ [233]%N ++ runes_of_ascii "`
-,
-a1
-    {	Z9_ @lengthOf(
-    repeatCount )
-    , u128
-{ zchar[4294967296 ] crc
-//x
-//
-@calculatedFrom(  ""packet"" ) ,repeat char x_y_z, }
-,	u8
-    Logon	@calculatedFrom(
-    """ ++ [233]%N ++ runes_of_ascii "t" ++ [233]%N ++ runes_of_ascii """ ) , }, }
-packet
-u { } // " ++ [128512]%N ++ runes_of_ascii " emoji")).
-Eval vm_compute in ("<<<M1414>>>" ++ check (runes_of_ascii "root  Foo // " ++ [128512]%N ++ runes_of_ascii " emoji
-{ } options {
-    // a // b
-    tag // `tick` ""quote"" 'q'
-= //	t
-""""
-    ; u8x = zchar[0  ] }
-MetaData
-    int {zchar[ 10]
-lengthOf	`` , i64 u8x`// not a comment` ,MetaDataX pack// `tick` ""quote"" 'q'
-`crlf
-line`
-, Logon charz `crlf
-line`
-    ,
-    // a // b
-    }
-")).
-Eval vm_compute in ("<<<M3505>>>" ++ check (runes_of_ascii "options {
-    LittleEndian = true;
-    ArrayPrefixLenType = u64;
-    FixedStringPadFromLeft = false;
-}
-packet Quote {
-}
-root packet Order {
-    i64 Side2,
-    Quote,
-    u32 Px,
-    match Px as Body {
-        [119, 147] : Quote,
-    },
-    u16 Flags @calculatedFrom(""CRC32""),
-}
-")).
-Eval vm_compute in ("<<<M1598>>>" ++ check (runes_of_ascii "root packet Foo // " ++ [128512]%N ++ runes_of_ascii " emoji
-{ } options {
-    // a // b
-    tag // `tick` ""quote"" 'q'
-= //	t
-""""
-    ; u8x = zchar[0  ] }
-MetaData
-    int {zchar[ 10]
-lengthOf	`` , i64 u8x`// not a comment` ,MetaDataX pack// `tick` ""quote"" 'q'
-`crlf
-line`
-, Logon charz `crlf
-line`")).
-Eval vm_compute in ("<<<M3929>>>" ++ check (runes_of_ascii "
-// packet A { u8 x, }
-    options
-	{ matchKey
-=
-char[]x
-=  char[]  // " ++ [27880; 37322]%N ++ runes_of_ascii "
-  }packet i64_
-{ repeat
-pack `say ""hi""`
-    ,	i16 calculatedFrom  `u8 x,`
-
-    ,
-}	MetaData
-
-calculatedFrom	{ // trailing space 
-	Logon
-	Packet,  } 	 // `tick` ""quote"" 'q'
- 
-")).
-Eval vm_compute in ("<<<M1200>>>" ++ check (runes_of_ascii "
-packet lengthOf { repeat
-    zchar[
-    10]
-x , @tag( 0123456789  ) char[ 3 ] charz ,
-}root packet i64_{ i64_
-`say ""hi""` ,string Logon `tab	here` ,
-uint64
-//x
-//	t
-pack @calculatedFrom( ""\" ++ [233]%N ++ runes_of_ascii """ ) `two words`
-,
-    } options
-{uint8x =
-'0'
-; }")).
-Eval vm_compute in ("<<<M921>>>" ++ check (runes_of_ascii "root packet
-    len {@rightPad( '0') repeat msg_type Foo ,
-    match  calculatedFrom
-as roots{ 00 : falsey	},@lengthOf( tag ) match // `tick` ""quote"" 'q'
-int as rootA { //
-7 :_x , },@calculatedFrom(
-    ""\" ++ [233]%N ++ runes_of_ascii """
-    )	f64 // " ++ [27880; 37322]%N ++ runes_of_ascii "
-crc ,
-}
-")).
-Eval vm_compute in ("<<<M3545>>>" ++ check (runes_of_ascii "packet Sub {
-    u8 a,
-    @calculatedFrom(""CRC16"") i16 SubSum,
-}
-root packet Frame {
-    u16 MsgType,
-    u16 BodyLen @lengthOf(Body),
-    Sub Body,
-    string note,
-    @calculatedFrom(""CRC16"") i16 Checksum,
-    u8 tail,
-}
-")).
-Eval vm_compute in ("<<<M402>>>" ++ check (runes_of_ascii "packet
-    falsey{ }MetaData
-    x
-{ body len // @lengthOf(
-, lengthOf trueish `two words` , zchar[// packet A { u8 x, }
-65535	] Header`it's`,  packetx uint8x
-`
-` , int32 As , }
-    // " ++ [128512]%N ++ runes_of_ascii " emoji
-    root packet i8i8
-{
-}
-")).
-Eval vm_compute in ("<<<M2241>>>" ++ check (runes_of_ascii "MetaData Packet { }packet	asx  { { @lengthOf( asx) falsey`crlf
-line`
-,
-    }
-    packet x	{uint32// @lengthOf(
-rootA	,u32 options1 `say ""hi""` , @tag( 7
-    )// packet A { u8 x, }
-msg_type @lengthOf(
-stringy	)	, }
-
-")).
-Eval vm_compute in ("<<<M2388>>>" ++ check (runes_of_ascii "MetaData Packet { }packet	asx  { @lengthO" ++ [8232]%N ++ runes_of_ascii "f( asx) falsey`crlf
-line`
-,
-    }
-    packet x	{uint32// @lengthOf(
-rootA	,u32 options1 `say ""hi""` , @tag( 7
-    )// packet A { u8 x, }
-msg_type @lengthOf(
-stringy	)	, }
-
-")).
-Eval vm_compute in ("<<<M2352>>>" ++ check (runes_of_ascii "MetaData Packet { }packet	asx  { @lengthOf( asx) falsey`crlf
-line`
-,
-    }
-    packet x	{uint32// @lengthOf(
-rootA	,u32 options1 `say ""hi""` , @tag( 7
-    )// packet A { u8 x, }
-msg_type stringy
-@lengthOf(	)	, }
-
-")).
-Eval vm_compute in ("<<<M1068>>>" ++ check (runes_of_ascii "MetaData pack
-    {Header  len ,  } packet
-i8i8	{pack @lengthOf( // @lengthOf(
-int )
-, }root packet
-// `tick` ""quote"" 'q'
-// c
-MetaDataX {char[007 ] metadata ,}
-MetaData //x
-MetaDataX { int
-    //x
-    o , }
-")).
-Eval vm_compute in ("<<<M4237>>>" ++ check (runes_of_ascii "MetaData uint8x {
 }
 
-packet matchKey {
-    @rightPad()
-    a1 {
-        zchar[1] u128 @calculatedFrom(""a\""b""),
-        i64_ i8i8,
-        // c
-        repeat int roots,
-        i8 charz,
-    },
+root packet matchKey {
+    u16 len @lengthOf(metadata) `// not a comment`,
 }
 
 options {
+    Z9_ = ""it's""
+    packetx = """ ++ [28040; 24687]%N ++ runes_of_ascii """;
+    falsey = char[0];
+    MetaDataX = ""a\\""
+    A = true;
 }")).
-Eval vm_compute in ("<<<M699>>>" ++ check (runes_of_ascii "packet
-    Header { @calculatedFrom(""a	b"" ) match u128
-    /// triple
-    as // trailing space 
-A
-    { 42// " ++ [128512]%N ++ runes_of_ascii " emoji
-: Header [ 3 ,
-// trailing space 
-// " ++ [27880; 37322]%N ++ runes_of_ascii "
-""packet"" , ""x y"" , ""a	b""
-    ]: zchar , },
-}")).
-Eval vm_compute in ("<<<M3942>>>" ++ check (runes_of_ascii "root packet Foo {
-    float32 Logon `doc`,
-}
-
-MetaData x_y_z {
-    Header Z9_ `line1
-        line2`,
-    o crc,
-    string Header,
-    _x packetx `say ""hi""`,
-}
-
-packet stringy {
-    uint8 i64_,
-}")).
-Eval vm_compute in ("<<<M1286>>>" ++ check (runes_of_ascii "root packet
-BodyLength { } options
-    { A = true ;
-    //	t
-    Packet =
-    i32 A =//x
-char[] }
-    packet
-    Z9_ { }
-root packet f32a
-{
-    //x
-    chars
+Eval vm_compute in ("<<<M495>>>" ++ check (runes_of_ascii "root packet BodyLength{ // " ++ [27880; 37322]%N ++ runes_of_ascii "
+repeat metadata msg_type
+`" ++ [28040; 24687; 31867; 22411]%N ++ runes_of_ascii "`
+, string roots	@calculatedFrom(""\n""
     // a // b
-    float ,	}
-")).
-Eval vm_compute in ("<<<M3456>>>" ++ check (runes_of_ascii "// top
-root // c0
-packet P // c2a
-  // c2b
-{ u16 // c4
-a // c5a
-  // c5b
-, // c6
-u32 // c7
-Sum @calculatedFrom(
-    // c9
-""CRC32"" // c10
-) , // c12a
-  // c12b
-} // c13a
-  // c13b
-")).
-Eval vm_compute in ("<<<M958>>>" ++ check (runes_of_ascii "packet trueish { @calculatedFrom( """ ++ [128512]%N ++ runes_of_ascii """ ) char[42 ] leftPad , pack ,@tag(	10	) packetx BodyLength , }	options { metadata
-    = ""it's""charz= u64; // " ++ [128512]%N ++ runes_of_ascii " emoji
-metadata= ' '
-;}
-")).
-Eval vm_compute in ("<<<M81>>>" ++ check (runes_of_ascii "root packet
-x_y_z {
-    @leftPad
-    (
-' ')uint8x { float32 len @calculatedFrom(""it's""
-    //
-    )
-`" ++ [233]%N ++ runes_of_ascii "` ,match o as stringy{ [""{,}""
-    ] : x
+    ) , repeat u8	repeatCount
+`" ++ [233]%N ++ runes_of_ascii "`
+,
+match x  as metadata {
+""`tick`"": roots 1 :x_y_z , """ ++ [128512]%N ++ runes_of_ascii """:
+Logon	, 7:falsey , }
     , }
-    ,
+packet Header // packet A { u8 x, }
+{ crc u,
 }
-, }
+    MetaData Logon { char[ 65535
+    ]	lengthOf ,} //")).
+Eval vm_compute in ("<<<M64>>>" ++ check (runes_of_ascii "MetaData chars {
+char[] // " ++ [128512]%N ++ runes_of_ascii " emoji
+As `a\` , } packet repeatCount {repeat
+    //x
+    charz
+{ char[ 00 ]	Pad,
+} , @calculatedFrom( ""// no comment"" )
+char[] matchKey //x
+`doc` ,u64 T@lengthOf(
+int
+) , }
+packet Header /// triple
+{  @calculatedFrom(""a\""b"") char[65535 ]
+// trailing space 
+// `tick` ""quote"" 'q'
+falsey , }
 ")).
-Eval vm_compute in ("<<<M1533>>>" ++ check (runes_of_ascii "root packet Foo // " ++ [128512]%N ++ runes_of_ascii " emoji
+Eval vm_compute in ("<<<M1550>>>" ++ check (runes_of_ascii "root packet Foo // " ++ [128512]%N ++ runes_of_ascii " emoji
 { } options {
     // a // b
     tag // `tick` ""quote"" 'q'
@@ -1927,376 +1523,774 @@ Eval vm_compute in ("<<<M1533>>>" ++ check (runes_of_ascii "root packet Foo // "
     ; u8x = zchar[0  ] }
 MetaData
     int {zchar[ 10]
-lengthOf")).
-Eval vm_compute in ("<<<M684>>>" ++ check (runes_of_ascii "root packet body
-    //	t
-    {@lengthOf(
-string_ )	match f32a as rootA{  [""x y""
-]
-// @lengthOf(
-// trailing space 
-:packetx
-//
-// a // b
-, }
-    , }")).
-Eval vm_compute in ("<<<M418>>>" ++ check (runes_of_ascii "  packet repeatCount
-    {
-    } packet
-charz
-{ @calculatedFrom( ""// no comment"" ) int32	msg_type
-@lengthOf(f32a
-    /// triple
-    ) , } // " ++ [27880; 37322]%N)).
-Eval vm_compute in ("<<<M132>>>" ++ check (runes_of_ascii "packet lengthOf
-{ options1 {	calculatedFrom`line1
-line2`	,
-} ,  @tag(
-4294967296 ) match	_x
-as msg_type	{ ""\" ++ [233]%N ++ runes_of_ascii """ // @lengthOf(
-:  o , },
-}")).
-Eval vm_compute in ("<<<M1303>>>" ++ check (runes_of_ascii "root packet lengthOf { char[00 ]  x@lengthOf(
-matchKey ) ,
-    //	t
-    float64 repeatCount // c
-, @lengthOf(	zchar
-)	char[]roots  ,	}
+lengthOf	`` , i64 u8x`// not a comment` `// not a comment` ,MetaDataX pack// `tick` ""quote"" 'q'
+`crlf
+line`
+, Logon charz `crlf
+line`
+    ,
+    // a // b
+    }
 ")).
-Eval vm_compute in ("<<<M1643>>>" ++ check (runes_of_ascii "root packet /// triple
-rootA {	i32 i32
+Eval vm_compute in ("<<<M1184>>>" ++ check (runes_of_ascii "/// triple
+MetaData body { zchar[ 65535 ]
+    //	t
+    _x , zchar[ 10 ]
+o	, i8i8 trueish ,
+Header
+u128
+`doc` ,// `tick` ""quote"" 'q'
+} packet matchKey { zchar `" ++ [233]%N ++ runes_of_ascii "` , }
+packet
+    metadata
+    {int16
+    len@lengthOf(
+// trailing space 
+// `tick` ""quote"" 'q'
+charz ) `two words` , // trailing space 
+}
+")).
+Eval vm_compute in ("<<<M1442>>>" ++ check (runes_of_ascii "root packet Foo // " ++ [128512]%N ++ runes_of_ascii " emoji
+{ } options char
+    // a // b
+    tag // `tick` ""quote"" 'q'
+= //	t
+""""
+    ; u8x = zchar[0  ] }
+MetaData
+    int {zchar[ 10]
+lengthOf	`` , i64 u8x`// not a comment` ,MetaDataX pack// `tick` ""quote"" 'q'
+`crlf
+line`
+, Logon charz `crlf
+line`
+    ,
+    // a // b
+    }
+")).
+Eval vm_compute in ("<<<M1597>>>" ++ check (runes_of_ascii "root packet Foo // " ++ [128512]%N ++ runes_of_ascii " emoji
+{ } options {
+    // a // b
+    tag // `tick` ""quote"" 'q'
+= //	t
+""""
+    ; u8x = zchar[0  ] }
+MetaData
+    int {zchar[ 10]
+lengthOf	`` , i64 u8x`// not a comment` ,MetaDataX pack// `tick` ""quote"" 'q'
+`crlf
+line`
+, Logon charz `crlf
+line`
+    u64
+    // a // b
+    }
+")).
+Eval vm_compute in ("<<<M1451>>>" ++ check (runes_of_ascii "root packet Foo // " ++ [128512]%N ++ runes_of_ascii " emoji
+{ } options {
+    // a // b
+    tag // `tick` ""quote"" 'q'
+"""" //	t
+=
+    ; u8x = zchar[0  ] }
+MetaData
+    int {zchar[ 10]
+lengthOf	`` , i64 u8x`// not a comment` ,MetaDataX pack// `tick` ""quote"" 'q'
+`crlf
+line`
+, Logon charz `crlf
+line`
+    ,
+    // a // b
+    }
+")).
+Eval vm_compute in ("<<<M4395>>>" ++ check (runes_of_ascii "options {
+    roots = 3
+    leftPad = string;
+    packetx = false;
+    zchar = true
+    options1 = false;
+}
+
+MetaData string_ {
+    i32 x_y_z,
+    char[4294967296] zchar `two words`,// c
+    char[42] metadata,
+}
+
+packet _x {
+    int8 rootA `doc`,
+}
+
+options {
+    lengthOf = ""// no comment""
+}")).
+Eval vm_compute in ("<<<M338>>>" ++ check (runes_of_ascii "
+MetaData u8x
+{
+stringy x_y_z , }
+root packet MetaDataX
+{
+len
+    @calculatedFrom(""`tick`"")// trailing space 
+`tab	here`
+    ,repeat
+falsey{
+T@calculatedFrom( ""\" ++ [233]%N ++ runes_of_ascii """
+) ,/// triple
+float32 options1 `tab	here` , // a // b
+},	@lengthOf( T
+)repeat
+float64// trailing space 
+a1
+`{ , }` ,}
+")).
+Eval vm_compute in ("<<<M1122>>>" ++ check (runes_of_ascii "root packet u8x { Packet	{
+    repeat i32 tag , } , match  A
+    as Logon {00: _x
+, } , int8 i8i8
+@lengthOf( metadata
+) ,	string
+lengthOf `
+`	,
+float32	calculatedFrom
+`two words`,}packet a1
+{
+Pad rootA , }  MetaData crc { char[ 007	] As`a\` ,
+u8x
+metadata  , roots lengthOf
+    ,	}
+")).
+Eval vm_compute in ("<<<M745>>>" ++ check (runes_of_ascii "  packet roots  {
+match
+// packet A { u8 x, }
+// " ++ [27880; 37322]%N ++ runes_of_ascii "
+u as repeatCount{4294967296	: repeatCount ,
+    1
+    : T, ""CRC32"" : matchKey , } , @rightPad // @lengthOf(
+(
+) @lengthOf( A	) @lengthOf(
+/// triple
+//x
+lengthOf // " ++ [27880; 37322]%N ++ runes_of_ascii "
+) repeat Pad {	zchar[ 4294967296] T  `tab	here`,} , }
+")).
+Eval vm_compute in ("<<<M1108>>>" ++ check (runes_of_ascii "MetaData lengthOf
+    {
+float rootA `
+`
+,  i16 // " ++ [128512]%N ++ runes_of_ascii " emoji
+x	,
+float32 msg_type, lengthOf
+// a // b
+// " ++ [27880; 37322]%N ++ runes_of_ascii "
+u8x `" ++ [28040; 24687; 31867; 22411]%N ++ runes_of_ascii "` ,}
+    options {  packetx= 3 ;options1=  zchar[255 ]
+;  Pad =false
+    ; repeatCount =	42 // @lengthOf(
+;
+    chars
+/// triple
+// a // b
+= ' '; }")).
+Eval vm_compute in ("<<<M664>>>" ++ check (runes_of_ascii "MetaData i64_ {
+char[
+255 ]tag
+    //
+    , uint32 Z9_ , T options1 `a\` ,
+    options1 Pad  , f32
+leftPad `line1
+line2` ,
+}
+options {	}
+    root
+    packet uint8x { // `tick` ""quote"" 'q'
+@lengthOf(float) falsey int `
+`, } MetaData A { u8 Packet ,}")).
+Eval vm_compute in ("<<<M4427>>>" ++ check (runes_of_ascii "
+MetaData 
+x{
+Foo
+    Header
+
+    ,
+
+char[
+0123456789  ] len 
+, int64
+    i64_,	char[ 
+42
+]
+
+    i8i8
+	,	i16  /// triple
+	pack, int64 
+u8x `it's` , 
+}  packet  pack 	 // @lengthOf(
+{ @calculatedFrom(  ""// no comment"" ) len matchKey , 
+}
+
+")).
+Eval vm_compute in ("<<<M4253>>>" ++ check (runes_of_ascii "packet 
+u128// packet A { u8 x, }
+
+{ @tag(
+00 )
+// trailing space 
+  i64
+
+    msg_type 
+@calculatedFrom( ""x y"")	,
+repeat 	 //
+    calculatedFrom u 	 //
+,@rightPad(
+    '0'
+
+) 
+repeat string  chars ``
+
+, int8
+
+    metadata, 
+}
+")).
+Eval vm_compute in ("<<<M2213>>>" ++ check (runes_of_ascii "MetaData MetaData Packet { }packet	asx  { @lengthOf( asx) falsey`crlf
+line`
+,
+    }
+    packet x	{uint32// @lengthOf(
+rootA	,u32 options1 `say ""hi""` , @tag( 7
+    )// packet A { u8 x, }
+msg_type @lengthOf(
+stringy	)	, }
+
+")).
+Eval vm_compute in ("<<<M2288>>>" ++ check (runes_of_ascii "MetaData Packet { }packet	asx  { @lengthOf( asx) falsey`crlf
+line`
+,
+    }
+    packet zchar[	{uint32// @lengthOf(
+rootA	,u32 options1 `say ""hi""` , @tag( 7
+    )// packet A { u8 x, }
+msg_type @lengthOf(
+stringy	)	, }
+
+")).
+Eval vm_compute in ("<<<M2361>>>" ++ check (runes_of_ascii "MetaData Packet { }packet	asx  { @lengthOf( asx) falsey`crlf
+line`
+,
+    }
+    packet x	{uint32// @lengthOf(
+rootA	,u32 options1 `say ""hi""` , @tag( 7
+    )// packet A { u8 x, }
+msg_type @lengthOf(
+stringy	) )	, }
+
+")).
+Eval vm_compute in ("<<<M2247>>>" ++ check (runes_of_ascii "MetaData Packet { }packet	asx  { asx @lengthOf() falsey`crlf
+line`
+,
+    }
+    packet x	{uint32// @lengthOf(
+rootA	,u32 options1 `say ""hi""` , @tag( 7
+    )// packet A { u8 x, }
+msg_type @lengthOf(
+stringy	)	, }
+
+")).
+Eval vm_compute in ("<<<M2255>>>" ++ check (runes_of_ascii "MetaData Packet { }packet	asx  { @lengthOf( asx falsey`crlf
+line`
+,
+    }
+    packet x	{uint32// @lengthOf(
+rootA	,u32 options1 `say ""hi""` , @tag( 7
+    )// packet A { u8 x, }
+msg_type @lengthOf(
+stringy	)	, }
+
+")).
+Eval vm_compute in ("<<<M3728>>>" ++ check (runes_of_ascii "packet A {
+    match k as n {
+        ""x\
+                y"" : B,
+        [""x\
+                y"", 1] : C,
+        [
+            1, 2, 3, 4, 5,
+            ""x\
+                        y""
+        ] : D,
+    },
+}")).
+Eval vm_compute in ("<<<M7>>>" ++ check (runes_of_ascii "MetaData trueish {	tag Foo `say ""hi""` , zchar[ 4294967296 ]
+    charz // packet A { u8 x, }
+,
+/// triple
+// a // b
+Z9_ _x ,
+char[	0123456789 ] lengthOf
+    , i64 u8x `// not a comment` , f32a a1 `doc`,	}
+")).
+Eval vm_compute in ("<<<M701>>>" ++ check (runes_of_ascii "// @lengthOf(
+MetaData pack { char[
+255
+    ]
+    options1
+,uint64
+    lengthOf,	int32 roots, }root packet Packet // @lengthOf(
+{// c
+@calculatedFrom( ""{,}"" ) string
+// " ++ [27880; 37322]%N ++ runes_of_ascii "
+// " ++ [128512]%N ++ runes_of_ascii " emoji
+zchar `" ++ [28040; 24687; 31867; 22411]%N ++ runes_of_ascii "`,	}")).
+Eval vm_compute in ("<<<M401>>>" ++ check (runes_of_ascii "MetaData// " ++ [27880; 37322]%N ++ runes_of_ascii "
+Z9_ {
+}root
+    packet leftPad{	@lengthOf( Pad ) @lengthOf(lengthOf
+)
+    @tag( 4294967296 ) o @lengthOf( i64_ )// a // b
+,
+}
+options
+// `tick` ""quote"" 'q'
+//x
+{
+    //
+    }")).
+Eval vm_compute in ("<<<M1162>>>" ++ check (runes_of_ascii "options { A = false
+    ;Packet = false ; Packet =
+zchar[0123456789 ]
+; charz
+= true
+    ; } MetaData	float
+{ u8x
+    Header
+    `" ++ [28040; 24687; 31867; 22411]%N ++ runes_of_ascii "`	,}packet
+    Header {Pad @lengthOf(u8x ) ,  }")).
+Eval vm_compute in ("<<<M351>>>" ++ check (runes_of_ascii "root packet
+stringy { charz T// " ++ [128512]%N ++ runes_of_ascii " emoji
+`u8 x,` ,	char tag , uint64 u128 ,}
+options { x
+=
+    '0' // `tick` ""quote"" 'q'
+rootA =""CRC32"" ; // " ++ [27880; 37322]%N ++ runes_of_ascii "
+i64_=""a\\"" ; } options{
+}
+// " ++ [27880; 37322]%N ++ runes_of_ascii "
+")).
+Eval vm_compute in ("<<<M1074>>>" ++ check (runes_of_ascii "packet
+f32a {
+    }
+    options { metadata = ' ' ; }
+options { }packet a1
+{ Foo { // " ++ [128512]%N ++ runes_of_ascii " emoji
+repeat zchar[00	]
+_x
+,
+}  ,
+    }
+MetaData Pad  {
+u16 u `tab	here`,	}")).
+Eval vm_compute in ("<<<M1543>>>" ++ check (runes_of_ascii "root packet Foo // " ++ [128512]%N ++ runes_of_ascii " emoji
+{ } options {
+    // a // b
+    tag // `tick` ""quote"" 'q'
+= //	t
+""""
+    ; u8x = zchar[0  ] }
+MetaData
+    int {zchar[ 10]
+lengthOf	`` ,")).
+Eval vm_compute in ("<<<M963>>>" ++ check (runes_of_ascii "root packet int
+{  trueish @calculatedFrom(  ""it's"" )
+    `doc` , string T
+`crlf
+line`, repeat rootA {match chars as tag{ [  """ ++ [233]%N ++ runes_of_ascii "t" ++ [233]%N ++ runes_of_ascii """
+] :	uint8x,
+} , } , }
+")).
+Eval vm_compute in ("<<<M4065>>>" ++ check (runes_of_ascii "  MetaData Pad
+
+    { int64
+	roots
+    ,
+
+    body u128
+//x
+	  ,
+float64 x 	 // trailing space 
+      ,int32 chars	,
+A options1
+
+    `
+`,
+
+} ")).
+Eval vm_compute in ("<<<M1061>>>" ++ check (runes_of_ascii "MetaData //
+u128 { x_y_z x_y_z `tab	here`, string
+// c
+/// triple
+charz// a // b
+, i64 roots`{ , }`
+    ,/// triple
+Logon//	t
+packetx ,
+    }
+")).
+Eval vm_compute in ("<<<M1078>>>" ++ check (runes_of_ascii "MetaData u128 { char[ 3
+] leftPad
+, char[] u8x	`{ , }` ,Header i8i8 , } options {
+    //
+    crc	= ""// no comment""asx
+= ""CRC32"" ;
+    }
+")).
+Eval vm_compute in ("<<<M1801>>>" ++ check (runes_of_ascii "packet
+    Pad // a // b
+{ i8i8 @calculatedFrom( @calculatedFrom( ""a	b"") `u8 x,` ,
+} options{ float// " ++ [128512]%N ++ runes_of_ascii " emoji
+= f64 i64_
+=//	t
+00 }
+")).
+Eval vm_compute in ("<<<M4483>>>" ++ check (runes_of_ascii "  options{ // c
+
+stringy
+=""1"" 
+;float	=
+i64	; 	 // a // b
+calculatedFrom
+	=  ""it's"";// c
+		Z9_
+= 
+""// no comment""  ;  // " ++ [27880; 37322]%N ++ runes_of_ascii "
+    }")).
+Eval vm_compute in ("<<<M1631>>>" ++ check (runes_of_ascii "root rootA /// triple
+packet {	i32
 MetaDataX@calculatedFrom( ""CRC32"" ) `line1
 line2` , } MetaData BodyLength {
 u8
 rootA, } // c")).
-Eval vm_compute in ("<<<M2324>>>" ++ check (runes_of_ascii "MetaData Packet { }packet	asx  { @lengthOf( asx) falsey`crlf
-line`
-,
-    }
-    packet x	{uint32// @lengthOf(
-rootA	,u32 options1")).
-Eval vm_compute in ("<<<M1699>>>" ++ check (runes_of_ascii "root packet /// triple
+Eval vm_compute in ("<<<M152>>>" ++ check (runes_of_ascii "options
+    {
+matchKey
+= ' '
+tag  = '\x00' ;
+    metadata
+// `tick` ""quote"" 'q'
+// @lengthOf(
+=  string ; charz
+= 65535
+; }
+")).
+Eval vm_compute in ("<<<M703>>>" ++ check (runes_of_ascii "options { matchKey = // @lengthOf(
+1 x
+= ""\" ++ [233]%N ++ runes_of_ascii """
+//	t
+/// triple
+MetaDataX =""a\""b"" ; u128
+// c
+/// triple
+=""\" ++ [233]%N ++ runes_of_ascii """
+} packet	As{ }")).
+Eval vm_compute in ("<<<M1629>>>" ++ check (runes_of_ascii "root  /// triple
 rootA {	i32
 MetaDataX@calculatedFrom( ""CRC32"" ) `line1
 line2` , } MetaData BodyLength {
-rootA
-u8, } // c")).
-Eval vm_compute in ("<<<M3753>>>" ++ check (runes_of_ascii "
-packet
-A
-
-{
-u16 len @lengthOf(	body
-    )`a
-b`
-	,	u32
-
-crc
-@calculatedFrom(""CRC32""
-	)
-
-    `a
-b` , string body
-
-    ,}")).
-Eval vm_compute in ("<<<M4191>>>" ++ check (runes_of_ascii "packet  A{
-
-u16
-    len @lengthOf( body)
-
-`a
-
-b` 
-,
-    u32 crc@calculatedFrom(
-
-""CRC32"" )`a
-
-b`	,
-    string body,
-
-    }")).
-Eval vm_compute in ("<<<M1808>>>" ++ check (runes_of_ascii "packet
-    Pad // a // b
-{ i8i8 @calculatedFrom( @rightPad) `u8 x,` ,
-} options{ float// " ++ [128512]%N ++ runes_of_ascii " emoji
-= f64 i64_
-=//	t
-00 }
-")).
-Eval vm_compute in ("<<<M1861>>>" ++ check (runes_of_ascii "packet
+u8
+rootA, } // c")).
+Eval vm_compute in ("<<<M1866>>>" ++ check (runes_of_ascii "packet
     Pad // a // b
 { i8i8 @calculatedFrom( ""a	b"") `u8 x,` ,
 } options{ float// " ++ [128512]%N ++ runes_of_ascii " emoji
 = f64 i64_
-= =//	t
-00 }
+=//	t
+00 00 }
 ")).
-Eval vm_compute in ("<<<M631>>>" ++ check (runes_of_ascii "MetaData // " ++ [128512]%N ++ runes_of_ascii " emoji
-Packet { char[] Pad
-    // " ++ [27880; 37322]%N ++ runes_of_ascii "
-    `tab	here`,
-} MetaData	u { roots stringy`doc` , }	options	{ }
-")).
-Eval vm_compute in ("<<<M1790>>>" ++ check (runes_of_ascii "packet
+Eval vm_compute in ("<<<M1793>>>" ++ check (runes_of_ascii "packet
     Pad // a // b
- i8i8 @calculatedFrom( ""a	b"") `u8 x,` ,
+42 i8i8 @calculatedFrom( ""a	b"") `u8 x,` ,
 } options{ float// " ++ [128512]%N ++ runes_of_ascii " emoji
 = f64 i64_
 =//	t
 00 }
 ")).
-Eval vm_compute in ("<<<M568>>>" ++ check (runes_of_ascii "root packet lengthOf { repeat char[
-0
-    ] i8i8 `" ++ [233]%N ++ runes_of_ascii "` ,
-MetaDataX@calculatedFrom( ""abc""
-/// triple
-// a // b
-),  }")).
-Eval vm_compute in ("<<<M482>>>" ++ check (runes_of_ascii "options{
-charz
-= true ; roots
-    /// triple
-    = int64  trueish // trailing space 
-= // c
-""\n""charz = u8  }
+Eval vm_compute in ("<<<M1812>>>" ++ check (runes_of_ascii "packet
+    Pad // a // b
+{ i8i8 @calculatedFrom( ""a	b""`u8 x,` ) ,
+} options{ float// " ++ [128512]%N ++ runes_of_ascii " emoji
+= f64 i64_
+=//	t
+00 }
 ")).
-Eval vm_compute in ("<<<M3556>>>" ++ check (runes_of_ascii "options {
-    Header = 4294967296
-    charz = true
-    Pad = '\x00'
-    charz = """";
+Eval vm_compute in ("<<<M2309>>>" ++ check (runes_of_ascii "MetaData Packet { }packet	asx  { @lengthOf( asx) falsey`crlf
+line`
+,
+    }
+    packet x	{uint32// @lengthOf(
+rootA")).
+Eval vm_compute in ("<<<M501>>>" ++ check (runes_of_ascii "options { u128 =  zchar[	255 ] ;  Pad=
+00 x_y_z= i16 Header  = ""\n""  ;  }
+    root packet
+BodyLength {//x
+}
+//x
+")).
+Eval vm_compute in ("<<<M3583>>>" ++ check (runes_of_ascii "packet A {
+    B b `a
+        b
+      c`,
+    B `a
+        b
+      c`,
+    repeat B bs `a
+        b
+      c`,
+}")).
+Eval vm_compute in ("<<<M3416>>>" ++ check (runes_of_ascii "// top
+root
+    // c0
+packet P {
+    // c3
+char // c4
+c // c5
+,
+    // c6
+u8 // c7
+x // c8
+, // c9
+} // c10
+")).
+Eval vm_compute in ("<<<M4215>>>" ++ check (runes_of_ascii "packet lengthOf {
+    @calculatedFrom(""packet"")
+    @lengthOf(options1)
+    char[] int,
 }
 
-MetaData MetaDataX {
+packet u8x {
 }")).
-Eval vm_compute in ("<<<M3040>>>" ++ check (runes_of_ascii "packet A {
-    u16 len @lengthOf(body) `
-x`,
-    u32 crc @calculatedFrom(""CRC32"") `
-x`,
-    string body,
+Eval vm_compute in ("<<<M3347>>>" ++ check (runes_of_ascii "packet calculatedFrom { @tag( 4294967296 // c
+) u msg_type , char[ 3 ] crc @lengthOf( len ) `u8 x,` , }")).
+Eval vm_compute in ("<<<M750>>>" ++ check (runes_of_ascii "  packet i64_{ @leftPad (
+'0'
+//x
+// @lengthOf(
+)	u8 MetaDataX ,
+    i16
+// trailing space 
+//x
+Pad,
 }")).
-Eval vm_compute in ("<<<M3340>>>" ++ check (runes_of_ascii "packet
+Eval vm_compute in ("<<<M3965>>>" ++ check (runes_of_ascii "// top
+MetaData _x {
+    // c2
+    zchar[4294967296] lengthOf `// not a comment`,
+    // c8
+}
+// c9")).
+Eval vm_compute in ("<<<M2940>>>" ++ check (runes_of_ascii "packet A {
+  match k as n {
+    [""a"", ""bb"", ""c c"", ""d"", ""e"", ""f"", ""g"", ""h""] : B
+    2 : C
+  },
+}")).
+Eval vm_compute in ("<<<M3223>>>" ++ check (runes_of_ascii "packet Logon { @tag(
 // c
-calculatedFrom { @tag( 4294967296 ) u msg_type , char[ 3 ] crc @lengthOf( len ) `u8 x,` , }")).
-Eval vm_compute in ("<<<M3372>>>" ++ check (runes_of_ascii "packet calculatedFrom { @tag( 4294967296 ) u msg_type , char[ 3 ] crc @lengthOf( len ) `u8 x,`
-// c
-, }")).
-Eval vm_compute in ("<<<M831>>>" ++ check (runes_of_ascii "packet
-    u { }
-MetaData string_ {
-metadata
-    msg_type , } options {pack= true; rootA= true }
-
-")).
-Eval vm_compute in ("<<<M4426>>>" ++ check (runes_of_ascii "  root  packet
-
-x_y_z	{ 
-// a // b
-      // packet A { u8 x, }
-	repeat  falsey// " ++ [27880; 37322]%N ++ runes_of_ascii "
-      `" ++ [233]%N ++ runes_of_ascii "`	,	}")).
-Eval vm_compute in ("<<<M3222>>>" ++ check (runes_of_ascii "packet Logon { @tag( // c
 42 ) @rightPad ( ' ' ) @leftPad ( ) repeat trueish { string T , } , }")).
-Eval vm_compute in ("<<<M3254>>>" ++ check (runes_of_ascii "packet Logon { @tag( 42 ) @rightPad ( ' ' ) @leftPad ( ) repeat trueish { string T , } // c
+Eval vm_compute in ("<<<M3255>>>" ++ check (runes_of_ascii "packet Logon { @tag( 42 ) @rightPad ( ' ' ) @leftPad ( ) repeat trueish { string T , }
+// c
 , }")).
 Eval vm_compute in ("<<<M270>>>" ++ check (runes_of_ascii "packet Pad { @calculatedFrom( ""CRC32"" ) @tag( 7 ) float32 u128 @calculatedFrom(""\n"")
     , }")).
-Eval vm_compute in ("<<<M1069>>>" ++ check (runes_of_ascii "MetaData lengthOf // a // b
-{i64 matchKey
-// " ++ [128512]%N ++ runes_of_ascii " emoji
-// packet A { u8 x, }
-`say ""hi""`
-, }")).
-Eval vm_compute in ("<<<M2002>>>" ++ check (runes_of_ascii "root
+Eval vm_compute in ("<<<M3921>>>" ++ check (runes_of_ascii "options {
+    tag = char[00];
+}
+
+root packet Header {
+    /// triple
+    repeat packetx,
+}")).
+Eval vm_compute in ("<<<M1030>>>" ++ check (runes_of_ascii "packet i8i8 { } options
+    { MetaDataX =
+""it's""  asx = char[
+    65535
+    ]  ;
+    }")).
+Eval vm_compute in ("<<<M2031>>>" ++ check (runes_of_ascii "root
 packet crc
     { f32a @calculatedFrom( """ ++ [233]%N ++ runes_of_ascii "t" ++ [233]%N ++ runes_of_ascii """ )
-    `say ""hi""`, , lengthOf `` ,  }")).
-Eval vm_compute in ("<<<M1676>>>" ++ check (runes_of_ascii "root packet /// triple
-rootA {	i32
-MetaDataX@calculatedFrom( ""CRC32"" ) `line1
-line2`")).
-Eval vm_compute in ("<<<M2045>>>" ++ check (runes_of_ascii "root
+ $   `say ""hi""`, lengthOf `` ,  }")).
+Eval vm_compute in ("<<<M2008>>>" ++ check (runes_of_ascii "root
 packet crc
-    { a" ++ [769]%N ++ runes_of_ascii "b @calculatedFrom( """ ++ [233]%N ++ runes_of_ascii "t" ++ [233]%N ++ runes_of_ascii """ )
-    `say ""hi""`, lengthOf `` ,  }")).
-Eval vm_compute in ("<<<M4348>>>" ++ check (runes_of_ascii "  root
-    packet Z9_
-	{ @rightPad (	) packetx  `" ++ [233]%N ++ runes_of_ascii "`,
-}root
-    packet
-falsey {
-	}
+    { f32a @calculatedFrom( """ ++ [233]%N ++ runes_of_ascii "t" ++ [233]%N ++ runes_of_ascii """ )
+    `say ""hi""`, `` lengthOf ,  }")).
+Eval vm_compute in ("<<<M1233>>>" ++ check (runes_of_ascii "
+MetaData
+    u128 {
+a1 Header , u
+i64_,
+    char[]
+    Logon ,
+    int64 crc , }
 ")).
-Eval vm_compute in ("<<<M3313>>>" ++ check (runes_of_ascii "packet o { @tag( 42 ) repeat x { char[
-// c
-0123456789 ] i64_ , } , } options { }")).
-Eval vm_compute in ("<<<M2916>>>" ++ check (runes_of_ascii "packet A {
+Eval vm_compute in ("<<<M2918>>>" ++ check (runes_of_ascii "packet A {
   match k as n {
-    [1, ""bb"", 007, ""d"", 5, ""f""] : B
+    [""a"", 22, ""c c"", 4, ""e"", 66] : B
     2 : C
   },
 }")).
-Eval vm_compute in ("<<<M3482>>>" ++ check (runes_of_ascii "packet
-    orderItem  { u8 a	,
-} root
-packet newOrder{	orderItem	, u8 x	,}
+Eval vm_compute in ("<<<M3322>>>" ++ check (runes_of_ascii "packet o { @tag( 42 ) repeat x { char[ 0123456789 ] i64_ , } // c
+, } options { }")).
+Eval vm_compute in ("<<<M411>>>" ++ check (runes_of_ascii "
+packet
+msg_type{ char[// trailing space 
+00 ] x_y_z@lengthOf(
+msg_type	) , }
 ")).
-Eval vm_compute in ("<<<M2903>>>" ++ check (runes_of_ascii "packet A {
+Eval vm_compute in ("<<<M2006>>>" ++ check (runes_of_ascii "root
+packet crc
+    { f32a @calculatedFrom( """ ++ [233]%N ++ runes_of_ascii "t" ++ [233]%N ++ runes_of_ascii """ )
+    `say ""hi""`,  `` ,  }")).
+Eval vm_compute in ("<<<M1211>>>" ++ check (runes_of_ascii "packet
+uint8x{ options1 @lengthOf(calculatedFrom
+)`crlf
+line`, // " ++ [27880; 37322]%N ++ runes_of_ascii "
+}
+")).
+Eval vm_compute in ("<<<M2891>>>" ++ check (runes_of_ascii "packet A {
   match k as n {
-    [1, ""bb"", 007, ""d"", 5] : B
+    [""a"", 22, ""c c"", 4] : B,
     2 : C
   },
 }")).
-Eval vm_compute in ("<<<M237>>>" ++ check (runes_of_ascii "// " ++ [128512]%N ++ runes_of_ascii " emoji
-packet	roots
-    // trailing space 
-    {
-    } // @lengthOf(")).
-Eval vm_compute in ("<<<M2169>>>" ++ check (runes_of_ascii "root
-    // `tick` ""quote"" 'q'
-    packet As false trueish Packet , }
-")).
-Eval vm_compute in ("<<<M1120>>>" ++ check (runes_of_ascii "MetaData
-    Pad { Foo a1 ,
-f64
-metadata
-    , zchar
-    string_ , }")).
-Eval vm_compute in ("<<<M2762>>>" ++ check (runes_of_ascii "@lengthOf( ; @tag( u16 , @tag( ""it's"" @tag( [ @leftPad char[] char[]")).
-Eval vm_compute in ("<<<M2155>>>" ++ check (runes_of_ascii "packet
-    // `tick` ""quote"" 'q'
-    root As { trueish Packet , }
-")).
-Eval vm_compute in ("<<<M3789>>>" ++ check (runes_of_ascii "packet f32a {
-    @tag(1)
-    Z9_ chars,
-    chars `
-        `,
+Eval vm_compute in ("<<<M617>>>" ++ check (runes_of_ascii "  packet	Packet { repeat int16
+charz // a // b
+,zchar[	65535 ]	tag , }")).
+Eval vm_compute in ("<<<M3743>>>" ++ check (runes_of_ascii "options {
+    roots = ""packet"";
+    len = 0;
+    crc = zchar[65535];
 }")).
-Eval vm_compute in ("<<<M16>>>" ++ check (runes_of_ascii "MetaData
-    stringy
-{ char[ 0] chars// @lengthOf(
-`{ , }` , }")).
-Eval vm_compute in ("<<<M1923>>>" ++ check (runes_of_ascii "
-packet	As { @calculatedFrom(//x
-""{,}""	match lengthOf , } 	 ")).
+Eval vm_compute in ("<<<M2201>>>" ++ check (runes_of_ascii "root
+    // `tick` ""quote"" 'q'
+    packet ` As { trueish Packet , }
+")).
+Eval vm_compute in ("<<<M1327>>>" ++ check (runes_of_ascii "MetaData Foo{ lengthOf tag /// triple
+,
+}
+// packet A { u8 x, }
+")).
+Eval vm_compute in ("<<<M2186>>>" ++ check (runes_of_ascii "root
+    // `tick` ""quote"" 'q'
+    packet As { trueish Packet , 
+")).
+Eval vm_compute in ("<<<M4026>>>" ++ check (runes_of_ascii "packet As {
+    @calculatedFrom(""{,}"")
+    lengthOf lengthOf,
+}")).
+Eval vm_compute in ("<<<M1763>>>" ++ check (runes_of_ascii "options { }options {  @calculatedFrom( // `tick` ""quote"" 'q'")).
 Eval vm_compute in ("<<<M1251>>>" ++ check (runes_of_ascii "MetaData stringy{
     // " ++ [128512]%N ++ runes_of_ascii " emoji
     options1 Header//
 ,
 }")).
-Eval vm_compute in ("<<<M3988>>>" ++ check (runes_of_ascii "
-root
-
-// `tick` ""quote"" 'q'
-packet
-As	{ Packet
-,
-	}
-
-")).
-Eval vm_compute in ("<<<M1932>>>" ++ check (runes_of_ascii "
+Eval vm_compute in ("<<<M4110>>>" ++ check (runes_of_ascii "packet options1 {
+    @lengthOf(x_y_z)
+    falsey,
+}
+// c")).
+Eval vm_compute in ("<<<M1922>>>" ++ check (runes_of_ascii "
 packet	As { @calculatedFrom(//x
-""{,}""	)lengthOf } , 	 ")).
-Eval vm_compute in ("<<<M530>>>" ++ check (runes_of_ascii "packet	_x  {repeat crc { char[
-7 ]
-float , }
-, } 	 ")).
-Eval vm_compute in ("<<<M2403>>>" ++ check (runes_of_ascii "MetaData A
-{ {
+""{,}""	lengthOf) , } 	 ")).
+Eval vm_compute in ("<<<M2407>>>" ++ check (runes_of_ascii "MetaData A
+{
 i64
+chars	, match // `tick` ""quote"" 'q'")).
+Eval vm_compute in ("<<<M2412>>>" ++ check (runes_of_ascii "MetaData A
+{
+< i64
 chars	, } // `tick` ""quote"" 'q'")).
-Eval vm_compute in ("<<<M4361>>>" ++ check (runes_of_ascii "  options
-	{ a
+Eval vm_compute in ("<<<M503>>>" ++ check (runes_of_ascii "options{Foo
     =
-""\
-""
-
-    ;  b	= ""\
-"" }
-
-")).
-Eval vm_compute in ("<<<M1775>>>" ++ check (runes_of_ascii "options ~ { }options {  } // `tick` ""quote"" 'q'")).
-Eval vm_compute in ("<<<M4257>>>" ++ check (runes_of_ascii "options	{
-	MetaDataX =	char[] }
-/// triple
- 
-")).
-Eval vm_compute in ("<<<M2840>>>" ++ check (runes_of_ascii "[ u8 char[] int64 string } ""\" ++ [233]%N ++ runes_of_ascii """ packet char[")).
-Eval vm_compute in ("<<<M1741>>>" ++ check (runes_of_ascii "char { }options {  } // `tick` ""quote"" 'q'")).
-Eval vm_compute in ("<<<M3735>>>" ++ check (runes_of_ascii "packet A	{u8 
-x
-
-    `d" ++ [5760]%N ++ runes_of_ascii "`
-
-,	// c" ++ [5760]%N ++ runes_of_ascii "
-
+    int8 ; As =
+    007 } //	t")).
+Eval vm_compute in ("<<<M2148>>>" ++ check (runes_of_ascii "MetaData x
+@lengthOf{// " ++ [128512]%N ++ runes_of_ascii " emoji
+i16 stringy , }")).
+Eval vm_compute in ("<<<M4221>>>" ++ check (runes_of_ascii "options {
+    a = 1;
 }
 
-")).
-Eval vm_compute in ("<<<M3191>>>" ++ check (runes_of_ascii "MetaData
-// c
-zchar { zchar[ 3 ] Pad , }")).
-Eval vm_compute in ("<<<M2149>>>" ++ check (runes_of_ascii "Met" ++ [0]%N ++ runes_of_ascii "aData x
+options {
+    a = 1;
+}")).
+Eval vm_compute in ("<<<M2143>>>" ++ check (runes_of_ascii "MetaData x
 {// " ++ [128512]%N ++ runes_of_ascii " emoji
-i16 stringy , }")).
+i16 '\x01'stringy , }")).
+Eval vm_compute in ("<<<M780>>>" ++ check (runes_of_ascii "packet
+    trueish { matchKey  leftPad,
+}")).
+Eval vm_compute in ("<<<M3206>>>" ++ check (runes_of_ascii "MetaData zchar { zchar[ 3 ] Pad , } // c
+")).
+Eval vm_compute in ("<<<M3190>>>" ++ check (runes_of_ascii "MetaData // c
+zchar { zchar[ 3 ] Pad , }")).
+Eval vm_compute in ("<<<M2145>>>" ++ check (runes_of_ascii "MetaData x
+{// " ++ [128512]%N ++ runes_of_ascii " emoji
+i16 " ++ [233]%N ++ runes_of_ascii "stringy , }")).
 Eval vm_compute in ("<<<M3056>>>" ++ check (runes_of_ascii "options {
     a = ""\
 "";
     b = ""\
 ""
 }")).
-Eval vm_compute in ("<<<M2132>>>" ++ check (runes_of_ascii "MetaData x
+Eval vm_compute in ("<<<M2122>>>" ++ check (runes_of_ascii "MetaData x
 {// " ++ [128512]%N ++ runes_of_ascii " emoji
-i16 stringy ,")).
-Eval vm_compute in ("<<<M3820>>>" ++ check (runes_of_ascii "packet A  {
+i16 ""x y"" , }")).
+Eval vm_compute in ("<<<M2128>>>" ++ check (runes_of_ascii "MetaData x
+{// " ++ [128512]%N ++ runes_of_ascii " emoji
+i16 stringy")).
+Eval vm_compute in ("<<<M4495>>>" ++ check (runes_of_ascii "packet A {
+    u8 x `a
+    b`,
+}")).
+Eval vm_compute in ("<<<M3044>>>" ++ check (runes_of_ascii "packet A {
+    u8 x `tab
+	x`,
+}")).
+Eval vm_compute in ("<<<M3103>>>" ++ check (runes_of_ascii "packet A {
+ u8 x `d" ++ [8233]%N ++ runes_of_ascii "`, // c" ++ [8233]%N ++ runes_of_ascii "
+}")).
+Eval vm_compute in ("<<<M1064>>>" ++ check (runes_of_ascii "
+root packet x_y_z	{ } //	t")).
+Eval vm_compute in ("<<<M2640>>>" ++ check (runes_of_ascii "packet A { } x packet B { }")).
+Eval vm_compute in ("<<<M2591>>>" ++ check (runes_of_ascii "packet A { u8 x @tag(1), }")).
+Eval vm_compute in ("<<<M3165>>>" ++ check (runes_of_ascii "options { a = 1 // a
+ ; }")).
+Eval vm_compute in ("<<<M3271>>>" ++ check (runes_of_ascii "options // c
+{ u8x = 3 }")).
+Eval vm_compute in ("<<<M2577>>>" ++ check (runes_of_ascii "packet A { char[ 3 y, }")).
+Eval vm_compute in ("<<<M2728>>>" ++ check (runes_of_ascii "zJCp5x,_`*Ps&{Uwa3JY4N")).
+Eval vm_compute in ("<<<M182>>>" ++ check (runes_of_ascii "root packet As { }
 
-    } // a
-	// b
+")).
+Eval vm_compute in ("<<<M2629>>>" ++ check (runes_of_ascii "packet A { } packet")).
+Eval vm_compute in ("<<<M2659>>>" ++ check (runes_of_ascii "options { a = 1, }")).
+Eval vm_compute in ("<<<M3117>>>" ++ check (runes_of_ascii "// c" ++ [11]%N ++ runes_of_ascii "
+packet A {
+}")).
+Eval vm_compute in ("<<<M2819>>>" ++ check (runes_of_ascii "1c9fP,9u8%sQZ4{.)")).
+Eval vm_compute in ("<<<M2834>>>" ++ check (runes_of_ascii "lUfoS)U1$-NNWF,V")).
+Eval vm_compute in ("<<<M2730>>>" ++ check (runes_of_ascii "@tag( ) uint64")).
+Eval vm_compute in ("<<<M1423>>>" ++ check (runes_of_ascii "root packet")).
+Eval vm_compute in ("<<<M4454>>>" ++ check (runes_of_ascii "
+// c" ++ [12]%N ++ runes_of_ascii "
  
 ")).
-Eval vm_compute in ("<<<M2814>>>" ++ check (runes_of_ascii "	" ++ [65533; 65533; 65533]%N ++ runes_of_ascii "Y" ++ [65533; 31; 65533; 65533]%N ++ runes_of_ascii "(" ++ [26]%N ++ runes_of_ascii "g" ++ [65533; 65533; 65533; 65533]%N ++ runes_of_ascii "-" ++ [567]%N ++ runes_of_ascii "q" ++ [65533; 65533; 4]%N ++ runes_of_ascii "G" ++ [65533]%N ++ runes_of_ascii "1" ++ [65533]%N ++ runes_of_ascii "/;D" ++ [65533]%N ++ runes_of_ascii "D" ++ [1; 65533]%N)).
-Eval vm_compute in ("<<<M51>>>" ++ check (runes_of_ascii "options
-{ string_ = //	t
-007 }
+Eval vm_compute in ("<<<M984>>>" ++ check (runes_of_ascii "
+ // c")).
+Eval vm_compute in ("<<<M2439>>>" ++ check (runes_of_ascii "uint8")).
+Eval vm_compute in ("<<<M3135>>>" ++ check (runes_of_ascii "// c" ++ [65279]%N)).
+Eval vm_compute in ("<<<M454>>>" ++ check (runes_of_ascii "  
 ")).
-Eval vm_compute in ("<<<M3073>>>" ++ check (runes_of_ascii "packet A {
- u8 x `d" ++ [160]%N ++ runes_of_ascii "`, // c" ++ [160]%N ++ runes_of_ascii "
-}")).
-Eval vm_compute in ("<<<M3162>>>" ++ check (runes_of_ascii "MetaData M {
-}// c
-options {}")).
-Eval vm_compute in ("<<<M1799>>>" ++ check (runes_of_ascii "packet
-    Pad // a // b
-{")).
-Eval vm_compute in ("<<<M2123>>>" ++ check (runes_of_ascii "MetaData x
-{// " ++ [128512]%N ++ runes_of_ascii " emoji
-i16")).
-Eval vm_compute in ("<<<M2719>>>" ++ check (runes_of_ascii ";" ++ [65533; 65533]%N ++ runes_of_ascii "M" ++ [29; 4; 65533; 37727]%N ++ runes_of_ascii "nK?" ++ [19; 65533; 65533; 65533]%N ++ runes_of_ascii "B" ++ [19; 16]%N ++ runes_of_ascii "%" ++ [65533; 65533; 65533; 65533]%N ++ runes_of_ascii "<" ++ [65533]%N)).
-Eval vm_compute in ("<<<M2665>>>" ++ check (runes_of_ascii "options { options = 1; }")).
-Eval vm_compute in ("<<<M2577>>>" ++ check (runes_of_ascii "packet A { char[ 3 y, }")).
-Eval vm_compute in ("<<<M2773>>>" ++ check (runes_of_ascii "int64 ; char match i64")).
-Eval vm_compute in ("<<<M94>>>" ++ check (runes_of_ascii "  options //x
-{} 	 ")).
-Eval vm_compute in ("<<<M2571>>>" ++ check (runes_of_ascii "packet A { x `d`, }")).
-Eval vm_compute in ("<<<M2753>>>" ++ check (runes_of_ascii ": ) uint16 root as")).
-Eval vm_compute in ("<<<M3131>>>" ++ check (runes_of_ascii "packet A {
-}
-// c" ++ [8203]%N)).
-Eval vm_compute in ("<<<M3064>>>" ++ check (runes_of_ascii "packet A {
-}// c" ++ [12288]%N)).
-Eval vm_compute in ("<<<M3734>>>" ++ check (runes_of_ascii "MetaData asx {
-}")).
-Eval vm_compute in ("<<<M2727>>>" ++ check (runes_of_ascii "A" ++ [65533; 65533; 65533; 65533]%N ++ runes_of_ascii "}" ++ [65533; 8; 20; 65533; 65533; 65533]%N ++ runes_of_ascii "J")).
-Eval vm_compute in ("<<<M545>>>" ++ check (runes_of_ascii "options
-{}")).
-Eval vm_compute in ("<<<M2486>>>" ++ check (runes_of_ascii "@lengthOf")).
-Eval vm_compute in ("<<<M2501>>>" ++ check (runes_of_ascii "// a
-b")).
-Eval vm_compute in ("<<<M685>>>" ++ check (runes_of_ascii " // c")).
-Eval vm_compute in ("<<<M3090>>>" ++ check (runes_of_ascii "// c" ++ [8202]%N)).
-Eval vm_compute in ("<<<M2540>>>" ++ check (runes_of_ascii "[[]]")).
-Eval vm_compute in ("<<<M2546>>>" ++ check (runes_of_ascii "a" ++ [11]%N ++ runes_of_ascii "b")).
-Eval vm_compute in ("<<<M2736>>>" ++ check (runes_of_ascii "u!")).
+Eval vm_compute in ("<<<M2686>>>" ++ check (runes_of_ascii " " ++ [12]%N ++ runes_of_ascii " ")).
+Eval vm_compute in ("<<<M2494>>>" ++ check (runes_of_ascii "/")).
